@@ -882,123 +882,1085 @@ Proof. intros F H. rewrite forallb_forall in F. apply F. exact H. Qed.
 Ltac safe_arm Safe := let g := fresh "g" in let N0 := fresh "N0" in let N1 := fresh "N1" in let N2 := fresh "N2" in
     destruct Safe as (g & -> & N0 & N1 & N2); [simpl; tauto|].
 
-Lemma step_in_body_gen_ok (ih it self : body) :
+(* what has to be shown of arm [k] with body [b] (callbacks as for the dispatcher) *)
+Definition ib_cb (ih it self : body) : Prop :=
   (forall s t, TInv s -> late s -> saving_mode (mode s) = false -> scalar_tok t ->
-               head_matches t (nth 4 heads_in_body []) = true -> wp (ih t) (step_post t) s) ->
-  (forall s, TInv s -> late s -> saving_mode (mode s) = false -> wp (it KEof) (step_post KEof) s) ->
+               head_matches t (nth 4 heads_in_body []) = true -> wp (ih t) (step_post t) s) /\
+  (forall s, TInv s -> late s -> saving_mode (mode s) = false -> wp (it KEof) (step_post KEof) s) /\
   (forall s t, TInv s -> late s -> saving_mode (mode s) = false -> scalar_tok t -> is_start t = true ->
-               (tname t = nm "br" \/ tname t = nm "img") -> wp (self t) (step_post t) s) ->
-  forall s t, TInv s -> late s -> (saving_mode (mode s) = false \/ is_chars t = true) -> scalar_tok t ->
-  wp (step_in_body_gen ih it self t) (ib_post t) s.
+               (tname t = nm "br" \/ tname t = nm "img") -> wp (self t) (step_post t) s).
+
+Definition ib_arm_spec (k : nat) (b : body) : Prop :=
+  forall s1 t, TInv s1 -> late s1 -> (saving_mode (mode s1) = false \/ is_chars t = true) -> scalar_tok t ->
+    head_matches t (nth k heads_in_body []) = true ->
+    (forall j, j < k -> head_matches t (nth j heads_in_body []) = false) ->
+    wp (b t) (ib_post t) s1.
+
+Ltac ib_setup :=
+  intros [HIH [HIT HSelf]] s1 t I1 L1 NSC Sc Hm Hn;
+  destruct in_body_arm_facts as (FS & FT & F15 & F14 & F18 & F29 & FF & FN & _ & F36 & F49 & F50 & A3 & A4 & A48 & A9 & F31 & F36n);
+  assert (TagFin : is_chars t = false -> forall r s', tag_post r s' -> ib_post t r s')
+    by (intros C r s' P; split; [apply tag_post_step; assumption | let X := fresh "X" in intro X; rewrite C in X; discriminate]);
+  assert (DoneFin : forall r s', is_done r s' -> ib_post t r s')
+    by (intros r s' [Is ->]; split; [apply step_post_done; exact Is | reflexivity]);
+  assert (NSof : is_chars t = false -> saving_mode (mode s1) = false)
+    by (let C := fresh "C" in let X := fresh "X" in intro C; destruct NSC as [X|X]; [exact X | rewrite C in X; discriminate]).
+
+Lemma ib_spec_0 ih it self : ib_cb ih it self -> ib_arm_spec 0 (ib_arm_0 ih it self).
 Proof.
-  intros HIH HIT HSelf s t I L NSC Sc. unfold step_in_body_gen.
-  apply wp_arm_dispatch; [apply total_in_body | apply (aligned_all ih it self) |].
-  intros k b Ek Eb Hm Hn.
-  pose proof (TInv_arm s (mode_id InBody) k I) as I1. set (s1 := set_out _ s) in *.
-  assert (L1 : late s1) by exact L.
-  destruct in_body_arm_facts as (FS & FT & F15 & F14 & F18 & F29 & FF & FN & _ & F36 & F49 & F50 & A3 & A4 & A48 & A9 & F31 & F36n).
-  (* helpers to finish *)
-  assert (TagFin : is_chars t = false -> forall r s', tag_post r s' -> ib_post t r s').
-  { intros C r s' P. split; [apply tag_post_step; assumption | intro X; congruence]. }
-  assert (DoneFin : forall r s', is_done r s' -> ib_post t r s').
-  { intros r s' [Is ->]. split; [apply step_post_done; exact Is | reflexivity]. }
-  assert (NSof : is_chars t = false -> saving_mode (mode s1) = false).
-  { intro C. destruct NSC as [X|X]; [exact X | congruence]. }
-  (* name facts for the arms that need them *)
-  assert (Safe : In k ib_safe_arms -> exists g, t = KTag g /\ tg_name g <> nm "html" /\
+  ib_setup.
+  assert (Safe : In 0 ib_safe_arms -> exists g, t = KTag g /\ tg_name g <> nm "html" /\
             (ns_html, tg_name g) <> (ns_html, nm "head") /\ (ns_html, tg_name g) <> (ns_html, nm "template")).
-  { intro Hk. apply (head_safe (nth k heads_in_body [])); [|exact Hm].
-    exact (forallb_nth_in (fun k => forallb (atom_names safe_name false) (nth k heads_in_body [])) ib_safe_arms k FS Hk). }
-  assert (Tag : In k ib_tag_arms -> exists g, t = KTag g).
-  { intro Hk. apply (head_all_tag (nth k heads_in_body [])); [|exact Hm].
-    exact (forallb_nth_in (fun k => forallb atom_is_tag (nth k heads_in_body [])) ib_tag_arms k FT Hk). }
-  assert (Fmt : In k [24; 25; 26; 27] -> exists g, t = KTag g /\ is_formatting (tg_name g) = true).
-  { intro Hk. apply (head_named_prop is_formatting (nth k heads_in_body [])); [|exact Hm].
-    exact (forallb_nth_in (fun k => forallb (atom_names is_formatting false) (nth k heads_in_body [])) [24; 25; 26; 27] k FF Hk). }
-  assert (NotC : In k [0; 2; 7] -> is_chars t = false).
-  { intro Hk. apply (head_not_chars (nth k heads_in_body [])); [|exact Hm].
-    exact (forallb_nth_in (fun k => forallb atom_not_chars (nth k heads_in_body [])) [0; 2; 7] k FN Hk). }
-  arm_cases k Eb.
-  - (* 0 *) unfold ib_arm_0. eapply wp_mono; [apply armd_unexpected; exact I1 | exact DoneFin].
-  - (* 1 *) eapply wp_mono; [apply ib_1_ok; assumption | exact DoneFin].
-  - (* 2 *) eapply wp_mono; [apply armd_append_comment; assumption | exact DoneFin].
-  - (* 3 *) eapply wp_mono; [apply ib_3_ok; assumption | exact DoneFin].
-  - (* 4 *) destruct Tag as [g ->]; [simpl; tauto|]. unfold ib_arm_4.
+  { intro Hk. apply (head_safe (nth 0 heads_in_body [])); [|exact Hm].
+    exact (forallb_nth_in (fun k => forallb (atom_names safe_name false) (nth k heads_in_body [])) ib_safe_arms 0 FS Hk). }
+  assert (Tag : In 0 ib_tag_arms -> exists g, t = KTag g).
+  { intro Hk. apply (head_all_tag (nth 0 heads_in_body [])); [|exact Hm].
+    exact (forallb_nth_in (fun k => forallb atom_is_tag (nth k heads_in_body [])) ib_tag_arms 0 FT Hk). }
+  assert (Fmt : In 0 [24; 25; 26; 27] -> exists g, t = KTag g /\ is_formatting (tg_name g) = true).
+  { intro Hk. apply (head_named_prop is_formatting (nth 0 heads_in_body [])); [|exact Hm].
+    exact (forallb_nth_in (fun k => forallb (atom_names is_formatting false) (nth k heads_in_body [])) [24; 25; 26; 27] 0 FF Hk). }
+  assert (NotC : In 0 [0; 2; 7] -> is_chars t = false).
+  { intro Hk. apply (head_not_chars (nth 0 heads_in_body [])); [|exact Hm].
+    exact (forallb_nth_in (fun k => forallb atom_not_chars (nth k heads_in_body [])) [0; 2; 7] 0 FN Hk). }
+  unfold ib_arm_0. eapply wp_mono; [apply armd_unexpected; exact I1 | exact DoneFin].
+Qed.
+
+Lemma ib_spec_1 ih it self : ib_cb ih it self -> ib_arm_spec 1 (ib_arm_1 ih it self).
+Proof.
+  ib_setup.
+  assert (Safe : In 1 ib_safe_arms -> exists g, t = KTag g /\ tg_name g <> nm "html" /\
+            (ns_html, tg_name g) <> (ns_html, nm "head") /\ (ns_html, tg_name g) <> (ns_html, nm "template")).
+  { intro Hk. apply (head_safe (nth 1 heads_in_body [])); [|exact Hm].
+    exact (forallb_nth_in (fun k => forallb (atom_names safe_name false) (nth k heads_in_body [])) ib_safe_arms 1 FS Hk). }
+  assert (Tag : In 1 ib_tag_arms -> exists g, t = KTag g).
+  { intro Hk. apply (head_all_tag (nth 1 heads_in_body [])); [|exact Hm].
+    exact (forallb_nth_in (fun k => forallb atom_is_tag (nth k heads_in_body [])) ib_tag_arms 1 FT Hk). }
+  assert (Fmt : In 1 [24; 25; 26; 27] -> exists g, t = KTag g /\ is_formatting (tg_name g) = true).
+  { intro Hk. apply (head_named_prop is_formatting (nth 1 heads_in_body [])); [|exact Hm].
+    exact (forallb_nth_in (fun k => forallb (atom_names is_formatting false) (nth k heads_in_body [])) [24; 25; 26; 27] 1 FF Hk). }
+  assert (NotC : In 1 [0; 2; 7] -> is_chars t = false).
+  { intro Hk. apply (head_not_chars (nth 1 heads_in_body [])); [|exact Hm].
+    exact (forallb_nth_in (fun k => forallb atom_not_chars (nth k heads_in_body [])) [0; 2; 7] 1 FN Hk). }
+  eapply wp_mono; [apply ib_1_ok; assumption | exact DoneFin].
+Qed.
+
+Lemma ib_spec_2 ih it self : ib_cb ih it self -> ib_arm_spec 2 (ib_arm_2 ih it self).
+Proof.
+  ib_setup.
+  assert (Safe : In 2 ib_safe_arms -> exists g, t = KTag g /\ tg_name g <> nm "html" /\
+            (ns_html, tg_name g) <> (ns_html, nm "head") /\ (ns_html, tg_name g) <> (ns_html, nm "template")).
+  { intro Hk. apply (head_safe (nth 2 heads_in_body [])); [|exact Hm].
+    exact (forallb_nth_in (fun k => forallb (atom_names safe_name false) (nth k heads_in_body [])) ib_safe_arms 2 FS Hk). }
+  assert (Tag : In 2 ib_tag_arms -> exists g, t = KTag g).
+  { intro Hk. apply (head_all_tag (nth 2 heads_in_body [])); [|exact Hm].
+    exact (forallb_nth_in (fun k => forallb atom_is_tag (nth k heads_in_body [])) ib_tag_arms 2 FT Hk). }
+  assert (Fmt : In 2 [24; 25; 26; 27] -> exists g, t = KTag g /\ is_formatting (tg_name g) = true).
+  { intro Hk. apply (head_named_prop is_formatting (nth 2 heads_in_body [])); [|exact Hm].
+    exact (forallb_nth_in (fun k => forallb (atom_names is_formatting false) (nth k heads_in_body [])) [24; 25; 26; 27] 2 FF Hk). }
+  assert (NotC : In 2 [0; 2; 7] -> is_chars t = false).
+  { intro Hk. apply (head_not_chars (nth 2 heads_in_body [])); [|exact Hm].
+    exact (forallb_nth_in (fun k => forallb atom_not_chars (nth k heads_in_body [])) [0; 2; 7] 2 FN Hk). }
+  eapply wp_mono; [apply armd_append_comment; assumption | exact DoneFin].
+Qed.
+
+Lemma ib_spec_3 ih it self : ib_cb ih it self -> ib_arm_spec 3 (ib_arm_3 ih it self).
+Proof.
+  ib_setup.
+  assert (Safe : In 3 ib_safe_arms -> exists g, t = KTag g /\ tg_name g <> nm "html" /\
+            (ns_html, tg_name g) <> (ns_html, nm "head") /\ (ns_html, tg_name g) <> (ns_html, nm "template")).
+  { intro Hk. apply (head_safe (nth 3 heads_in_body [])); [|exact Hm].
+    exact (forallb_nth_in (fun k => forallb (atom_names safe_name false) (nth k heads_in_body [])) ib_safe_arms 3 FS Hk). }
+  assert (Tag : In 3 ib_tag_arms -> exists g, t = KTag g).
+  { intro Hk. apply (head_all_tag (nth 3 heads_in_body [])); [|exact Hm].
+    exact (forallb_nth_in (fun k => forallb atom_is_tag (nth k heads_in_body [])) ib_tag_arms 3 FT Hk). }
+  assert (Fmt : In 3 [24; 25; 26; 27] -> exists g, t = KTag g /\ is_formatting (tg_name g) = true).
+  { intro Hk. apply (head_named_prop is_formatting (nth 3 heads_in_body [])); [|exact Hm].
+    exact (forallb_nth_in (fun k => forallb (atom_names is_formatting false) (nth k heads_in_body [])) [24; 25; 26; 27] 3 FF Hk). }
+  assert (NotC : In 3 [0; 2; 7] -> is_chars t = false).
+  { intro Hk. apply (head_not_chars (nth 3 heads_in_body [])); [|exact Hm].
+    exact (forallb_nth_in (fun k => forallb atom_not_chars (nth k heads_in_body [])) [0; 2; 7] 3 FN Hk). }
+  eapply wp_mono; [apply ib_3_ok; assumption | exact DoneFin].
+Qed.
+
+Lemma ib_spec_4 ih it self : ib_cb ih it self -> ib_arm_spec 4 (ib_arm_4 ih it self).
+Proof.
+  ib_setup.
+  assert (Safe : In 4 ib_safe_arms -> exists g, t = KTag g /\ tg_name g <> nm "html" /\
+            (ns_html, tg_name g) <> (ns_html, nm "head") /\ (ns_html, tg_name g) <> (ns_html, nm "template")).
+  { intro Hk. apply (head_safe (nth 4 heads_in_body [])); [|exact Hm].
+    exact (forallb_nth_in (fun k => forallb (atom_names safe_name false) (nth k heads_in_body [])) ib_safe_arms 4 FS Hk). }
+  assert (Tag : In 4 ib_tag_arms -> exists g, t = KTag g).
+  { intro Hk. apply (head_all_tag (nth 4 heads_in_body [])); [|exact Hm].
+    exact (forallb_nth_in (fun k => forallb atom_is_tag (nth k heads_in_body [])) ib_tag_arms 4 FT Hk). }
+  assert (Fmt : In 4 [24; 25; 26; 27] -> exists g, t = KTag g /\ is_formatting (tg_name g) = true).
+  { intro Hk. apply (head_named_prop is_formatting (nth 4 heads_in_body [])); [|exact Hm].
+    exact (forallb_nth_in (fun k => forallb (atom_names is_formatting false) (nth k heads_in_body [])) [24; 25; 26; 27] 4 FF Hk). }
+  assert (NotC : In 4 [0; 2; 7] -> is_chars t = false).
+  { intro Hk. apply (head_not_chars (nth 4 heads_in_body [])); [|exact Hm].
+    exact (forallb_nth_in (fun k => forallb atom_not_chars (nth k heads_in_body [])) [0; 2; 7] 4 FN Hk). }
+  destruct Tag as [g ->]; [simpl; tauto|]. unfold ib_arm_4.
     eapply wp_mono; [apply HIH; [exact I1 | exact L1 | apply NSof; reflexivity | exact Sc | exact Hm]|].
     intros r s' P. split; [exact P | intro X; discriminate].
-  - (* 5 *) eapply wp_mono; [apply ib_5_ok; assumption | exact DoneFin].
-  - (* 6 *) safe_arm Safe. eapply wp_mono; [apply ib_6_ok; try assumption; apply NSof; reflexivity | exact DoneFin].
-  - (* 7 *) unfold ib_arm_7. rewrite wp_bind, wp_get.
+Qed.
+
+Lemma ib_spec_5 ih it self : ib_cb ih it self -> ib_arm_spec 5 (ib_arm_5 ih it self).
+Proof.
+  ib_setup.
+  assert (Safe : In 5 ib_safe_arms -> exists g, t = KTag g /\ tg_name g <> nm "html" /\
+            (ns_html, tg_name g) <> (ns_html, nm "head") /\ (ns_html, tg_name g) <> (ns_html, nm "template")).
+  { intro Hk. apply (head_safe (nth 5 heads_in_body [])); [|exact Hm].
+    exact (forallb_nth_in (fun k => forallb (atom_names safe_name false) (nth k heads_in_body [])) ib_safe_arms 5 FS Hk). }
+  assert (Tag : In 5 ib_tag_arms -> exists g, t = KTag g).
+  { intro Hk. apply (head_all_tag (nth 5 heads_in_body [])); [|exact Hm].
+    exact (forallb_nth_in (fun k => forallb atom_is_tag (nth k heads_in_body [])) ib_tag_arms 5 FT Hk). }
+  assert (Fmt : In 5 [24; 25; 26; 27] -> exists g, t = KTag g /\ is_formatting (tg_name g) = true).
+  { intro Hk. apply (head_named_prop is_formatting (nth 5 heads_in_body [])); [|exact Hm].
+    exact (forallb_nth_in (fun k => forallb (atom_names is_formatting false) (nth k heads_in_body [])) [24; 25; 26; 27] 5 FF Hk). }
+  assert (NotC : In 5 [0; 2; 7] -> is_chars t = false).
+  { intro Hk. apply (head_not_chars (nth 5 heads_in_body [])); [|exact Hm].
+    exact (forallb_nth_in (fun k => forallb atom_not_chars (nth k heads_in_body [])) [0; 2; 7] 5 FN Hk). }
+  eapply wp_mono; [apply ib_5_ok; assumption | exact DoneFin].
+Qed.
+
+Lemma ib_spec_6 ih it self : ib_cb ih it self -> ib_arm_spec 6 (ib_arm_6 ih it self).
+Proof.
+  ib_setup.
+  assert (Safe : In 6 ib_safe_arms -> exists g, t = KTag g /\ tg_name g <> nm "html" /\
+            (ns_html, tg_name g) <> (ns_html, nm "head") /\ (ns_html, tg_name g) <> (ns_html, nm "template")).
+  { intro Hk. apply (head_safe (nth 6 heads_in_body [])); [|exact Hm].
+    exact (forallb_nth_in (fun k => forallb (atom_names safe_name false) (nth k heads_in_body [])) ib_safe_arms 6 FS Hk). }
+  assert (Tag : In 6 ib_tag_arms -> exists g, t = KTag g).
+  { intro Hk. apply (head_all_tag (nth 6 heads_in_body [])); [|exact Hm].
+    exact (forallb_nth_in (fun k => forallb atom_is_tag (nth k heads_in_body [])) ib_tag_arms 6 FT Hk). }
+  assert (Fmt : In 6 [24; 25; 26; 27] -> exists g, t = KTag g /\ is_formatting (tg_name g) = true).
+  { intro Hk. apply (head_named_prop is_formatting (nth 6 heads_in_body [])); [|exact Hm].
+    exact (forallb_nth_in (fun k => forallb (atom_names is_formatting false) (nth k heads_in_body [])) [24; 25; 26; 27] 6 FF Hk). }
+  assert (NotC : In 6 [0; 2; 7] -> is_chars t = false).
+  { intro Hk. apply (head_not_chars (nth 6 heads_in_body [])); [|exact Hm].
+    exact (forallb_nth_in (fun k => forallb atom_not_chars (nth k heads_in_body [])) [0; 2; 7] 6 FN Hk). }
+  safe_arm Safe. eapply wp_mono; [apply ib_6_ok; try assumption; apply NSof; reflexivity | exact DoneFin].
+Qed.
+
+Lemma ib_spec_7 ih it self : ib_cb ih it self -> ib_arm_spec 7 (ib_arm_7 ih it self).
+Proof.
+  ib_setup.
+  assert (Safe : In 7 ib_safe_arms -> exists g, t = KTag g /\ tg_name g <> nm "html" /\
+            (ns_html, tg_name g) <> (ns_html, nm "head") /\ (ns_html, tg_name g) <> (ns_html, nm "template")).
+  { intro Hk. apply (head_safe (nth 7 heads_in_body [])); [|exact Hm].
+    exact (forallb_nth_in (fun k => forallb (atom_names safe_name false) (nth k heads_in_body [])) ib_safe_arms 7 FS Hk). }
+  assert (Tag : In 7 ib_tag_arms -> exists g, t = KTag g).
+  { intro Hk. apply (head_all_tag (nth 7 heads_in_body [])); [|exact Hm].
+    exact (forallb_nth_in (fun k => forallb atom_is_tag (nth k heads_in_body [])) ib_tag_arms 7 FT Hk). }
+  assert (Fmt : In 7 [24; 25; 26; 27] -> exists g, t = KTag g /\ is_formatting (tg_name g) = true).
+  { intro Hk. apply (head_named_prop is_formatting (nth 7 heads_in_body [])); [|exact Hm].
+    exact (forallb_nth_in (fun k => forallb (atom_names is_formatting false) (nth k heads_in_body [])) [24; 25; 26; 27] 7 FF Hk). }
+  assert (NotC : In 7 [0; 2; 7] -> is_chars t = false).
+  { intro Hk. apply (head_not_chars (nth 7 heads_in_body [])); [|exact Hm].
+    exact (forallb_nth_in (fun k => forallb atom_not_chars (nth k heads_in_body [])) [0; 2; 7] 7 FN Hk). }
+  unfold ib_arm_7. rewrite wp_bind, wp_get.
     assert (C : is_chars t = false) by (apply NotC; simpl; tauto).
     assert (t = KEof).
-    { unfold head_matches in Hm. vm_compute in Hm. destruct t as [g|c|sp c| |]; try discriminate; [|reflexivity].
-      destruct (tg_kind g); discriminate. }
+    { assert (E7 : nth 7 heads_in_body [] = [AEof]) by reflexivity. rewrite E7 in Hm. unfold head_matches in Hm.
+      destruct t; simpl in Hm; try discriminate. reflexivity. }
     subst t. destruct (template_modes s1).
     + rewrite wp_bind. eapply (wp_check_body_end s1); [apply keeps_refl; exact I1|]. intros s2 K2 _. rewrite wp_ret.
       apply DoneFin. split; [exact (keeps_TInv _ _ K2) | reflexivity].
     + eapply wp_mono; [apply HIT; [exact I1 | exact L1 | apply NSof; reflexivity]|]. intros r s' P. split; [exact P | intro X; discriminate].
-  - (* 8 *) destruct Tag as [g ->]; [simpl; tauto|]. eapply wp_mono; [apply ib_8_ok; try assumption; apply NSof; reflexivity | exact DoneFin].
-  - (* 9 *) destruct Tag as [g ->]; [simpl; tauto|]. eapply wp_mono; [apply ib_9_ok; try assumption; [apply NSof; reflexivity | reflexivity]|].
+Qed.
+
+Lemma ib_spec_8 ih it self : ib_cb ih it self -> ib_arm_spec 8 (ib_arm_8 ih it self).
+Proof.
+  ib_setup.
+  assert (Safe : In 8 ib_safe_arms -> exists g, t = KTag g /\ tg_name g <> nm "html" /\
+            (ns_html, tg_name g) <> (ns_html, nm "head") /\ (ns_html, tg_name g) <> (ns_html, nm "template")).
+  { intro Hk. apply (head_safe (nth 8 heads_in_body [])); [|exact Hm].
+    exact (forallb_nth_in (fun k => forallb (atom_names safe_name false) (nth k heads_in_body [])) ib_safe_arms 8 FS Hk). }
+  assert (Tag : In 8 ib_tag_arms -> exists g, t = KTag g).
+  { intro Hk. apply (head_all_tag (nth 8 heads_in_body [])); [|exact Hm].
+    exact (forallb_nth_in (fun k => forallb atom_is_tag (nth k heads_in_body [])) ib_tag_arms 8 FT Hk). }
+  assert (Fmt : In 8 [24; 25; 26; 27] -> exists g, t = KTag g /\ is_formatting (tg_name g) = true).
+  { intro Hk. apply (head_named_prop is_formatting (nth 8 heads_in_body [])); [|exact Hm].
+    exact (forallb_nth_in (fun k => forallb (atom_names is_formatting false) (nth k heads_in_body [])) [24; 25; 26; 27] 8 FF Hk). }
+  assert (NotC : In 8 [0; 2; 7] -> is_chars t = false).
+  { intro Hk. apply (head_not_chars (nth 8 heads_in_body [])); [|exact Hm].
+    exact (forallb_nth_in (fun k => forallb atom_not_chars (nth k heads_in_body [])) [0; 2; 7] 8 FN Hk). }
+  destruct Tag as [g ->]; [simpl; tauto|]. eapply wp_mono; [apply ib_8_ok; try assumption; apply NSof; reflexivity | exact DoneFin].
+Qed.
+
+Lemma ib_spec_9 ih it self : ib_cb ih it self -> ib_arm_spec 9 (ib_arm_9 ih it self).
+Proof.
+  ib_setup.
+  assert (Safe : In 9 ib_safe_arms -> exists g, t = KTag g /\ tg_name g <> nm "html" /\
+            (ns_html, tg_name g) <> (ns_html, nm "head") /\ (ns_html, tg_name g) <> (ns_html, nm "template")).
+  { intro Hk. apply (head_safe (nth 9 heads_in_body [])); [|exact Hm].
+    exact (forallb_nth_in (fun k => forallb (atom_names safe_name false) (nth k heads_in_body [])) ib_safe_arms 9 FS Hk). }
+  assert (Tag : In 9 ib_tag_arms -> exists g, t = KTag g).
+  { intro Hk. apply (head_all_tag (nth 9 heads_in_body [])); [|exact Hm].
+    exact (forallb_nth_in (fun k => forallb atom_is_tag (nth k heads_in_body [])) ib_tag_arms 9 FT Hk). }
+  assert (Fmt : In 9 [24; 25; 26; 27] -> exists g, t = KTag g /\ is_formatting (tg_name g) = true).
+  { intro Hk. apply (head_named_prop is_formatting (nth 9 heads_in_body [])); [|exact Hm].
+    exact (forallb_nth_in (fun k => forallb (atom_names is_formatting false) (nth k heads_in_body [])) [24; 25; 26; 27] 9 FF Hk). }
+  assert (NotC : In 9 [0; 2; 7] -> is_chars t = false).
+  { intro Hk. apply (head_not_chars (nth 9 heads_in_body [])); [|exact Hm].
+    exact (forallb_nth_in (fun k => forallb atom_not_chars (nth k heads_in_body [])) [0; 2; 7] 9 FN Hk). }
+  destruct Tag as [g ->]; [simpl; tauto|]. eapply wp_mono; [apply ib_9_ok; try assumption; [apply NSof; reflexivity | reflexivity]|].
     intros r s' P. split; [exact P | intro X; discriminate].
-  - (* 10 *) safe_arm Safe. unfold ib_arm_10. eapply wp_mono; [apply ib_block_start_ok; assumption | exact DoneFin].
-  - (* 11 *) safe_arm Safe. unfold ib_arm_11. eapply wp_mono; [apply ib_block_start_ok; assumption | exact DoneFin].
-  - (* 12 *) safe_arm Safe. eapply wp_mono; [apply ib_12_ok; assumption | exact DoneFin].
-  - (* 13 *) safe_arm Safe. eapply wp_mono; [apply ib_13_ok; assumption | exact DoneFin].
-  - (* 14 *) destruct (head_named_prop _ _ _ F14 Hm) as (g & -> & Nf). apply is_n_eq in Nf.
+Qed.
+
+Lemma ib_spec_10 ih it self : ib_cb ih it self -> ib_arm_spec 10 (ib_arm_10 ih it self).
+Proof.
+  ib_setup.
+  assert (Safe : In 10 ib_safe_arms -> exists g, t = KTag g /\ tg_name g <> nm "html" /\
+            (ns_html, tg_name g) <> (ns_html, nm "head") /\ (ns_html, tg_name g) <> (ns_html, nm "template")).
+  { intro Hk. apply (head_safe (nth 10 heads_in_body [])); [|exact Hm].
+    exact (forallb_nth_in (fun k => forallb (atom_names safe_name false) (nth k heads_in_body [])) ib_safe_arms 10 FS Hk). }
+  assert (Tag : In 10 ib_tag_arms -> exists g, t = KTag g).
+  { intro Hk. apply (head_all_tag (nth 10 heads_in_body [])); [|exact Hm].
+    exact (forallb_nth_in (fun k => forallb atom_is_tag (nth k heads_in_body [])) ib_tag_arms 10 FT Hk). }
+  assert (Fmt : In 10 [24; 25; 26; 27] -> exists g, t = KTag g /\ is_formatting (tg_name g) = true).
+  { intro Hk. apply (head_named_prop is_formatting (nth 10 heads_in_body [])); [|exact Hm].
+    exact (forallb_nth_in (fun k => forallb (atom_names is_formatting false) (nth k heads_in_body [])) [24; 25; 26; 27] 10 FF Hk). }
+  assert (NotC : In 10 [0; 2; 7] -> is_chars t = false).
+  { intro Hk. apply (head_not_chars (nth 10 heads_in_body [])); [|exact Hm].
+    exact (forallb_nth_in (fun k => forallb atom_not_chars (nth k heads_in_body [])) [0; 2; 7] 10 FN Hk). }
+  safe_arm Safe. unfold ib_arm_10. eapply wp_mono; [apply ib_block_start_ok; assumption | exact DoneFin].
+Qed.
+
+Lemma ib_spec_11 ih it self : ib_cb ih it self -> ib_arm_spec 11 (ib_arm_11 ih it self).
+Proof.
+  ib_setup.
+  assert (Safe : In 11 ib_safe_arms -> exists g, t = KTag g /\ tg_name g <> nm "html" /\
+            (ns_html, tg_name g) <> (ns_html, nm "head") /\ (ns_html, tg_name g) <> (ns_html, nm "template")).
+  { intro Hk. apply (head_safe (nth 11 heads_in_body [])); [|exact Hm].
+    exact (forallb_nth_in (fun k => forallb (atom_names safe_name false) (nth k heads_in_body [])) ib_safe_arms 11 FS Hk). }
+  assert (Tag : In 11 ib_tag_arms -> exists g, t = KTag g).
+  { intro Hk. apply (head_all_tag (nth 11 heads_in_body [])); [|exact Hm].
+    exact (forallb_nth_in (fun k => forallb atom_is_tag (nth k heads_in_body [])) ib_tag_arms 11 FT Hk). }
+  assert (Fmt : In 11 [24; 25; 26; 27] -> exists g, t = KTag g /\ is_formatting (tg_name g) = true).
+  { intro Hk. apply (head_named_prop is_formatting (nth 11 heads_in_body [])); [|exact Hm].
+    exact (forallb_nth_in (fun k => forallb (atom_names is_formatting false) (nth k heads_in_body [])) [24; 25; 26; 27] 11 FF Hk). }
+  assert (NotC : In 11 [0; 2; 7] -> is_chars t = false).
+  { intro Hk. apply (head_not_chars (nth 11 heads_in_body [])); [|exact Hm].
+    exact (forallb_nth_in (fun k => forallb atom_not_chars (nth k heads_in_body [])) [0; 2; 7] 11 FN Hk). }
+  safe_arm Safe. unfold ib_arm_11. eapply wp_mono; [apply ib_block_start_ok; assumption | exact DoneFin].
+Qed.
+
+Lemma ib_spec_12 ih it self : ib_cb ih it self -> ib_arm_spec 12 (ib_arm_12 ih it self).
+Proof.
+  ib_setup.
+  assert (Safe : In 12 ib_safe_arms -> exists g, t = KTag g /\ tg_name g <> nm "html" /\
+            (ns_html, tg_name g) <> (ns_html, nm "head") /\ (ns_html, tg_name g) <> (ns_html, nm "template")).
+  { intro Hk. apply (head_safe (nth 12 heads_in_body [])); [|exact Hm].
+    exact (forallb_nth_in (fun k => forallb (atom_names safe_name false) (nth k heads_in_body [])) ib_safe_arms 12 FS Hk). }
+  assert (Tag : In 12 ib_tag_arms -> exists g, t = KTag g).
+  { intro Hk. apply (head_all_tag (nth 12 heads_in_body [])); [|exact Hm].
+    exact (forallb_nth_in (fun k => forallb atom_is_tag (nth k heads_in_body [])) ib_tag_arms 12 FT Hk). }
+  assert (Fmt : In 12 [24; 25; 26; 27] -> exists g, t = KTag g /\ is_formatting (tg_name g) = true).
+  { intro Hk. apply (head_named_prop is_formatting (nth 12 heads_in_body [])); [|exact Hm].
+    exact (forallb_nth_in (fun k => forallb (atom_names is_formatting false) (nth k heads_in_body [])) [24; 25; 26; 27] 12 FF Hk). }
+  assert (NotC : In 12 [0; 2; 7] -> is_chars t = false).
+  { intro Hk. apply (head_not_chars (nth 12 heads_in_body [])); [|exact Hm].
+    exact (forallb_nth_in (fun k => forallb atom_not_chars (nth k heads_in_body [])) [0; 2; 7] 12 FN Hk). }
+  safe_arm Safe. eapply wp_mono; [apply ib_12_ok; assumption | exact DoneFin].
+Qed.
+
+Lemma ib_spec_13 ih it self : ib_cb ih it self -> ib_arm_spec 13 (ib_arm_13 ih it self).
+Proof.
+  ib_setup.
+  assert (Safe : In 13 ib_safe_arms -> exists g, t = KTag g /\ tg_name g <> nm "html" /\
+            (ns_html, tg_name g) <> (ns_html, nm "head") /\ (ns_html, tg_name g) <> (ns_html, nm "template")).
+  { intro Hk. apply (head_safe (nth 13 heads_in_body [])); [|exact Hm].
+    exact (forallb_nth_in (fun k => forallb (atom_names safe_name false) (nth k heads_in_body [])) ib_safe_arms 13 FS Hk). }
+  assert (Tag : In 13 ib_tag_arms -> exists g, t = KTag g).
+  { intro Hk. apply (head_all_tag (nth 13 heads_in_body [])); [|exact Hm].
+    exact (forallb_nth_in (fun k => forallb atom_is_tag (nth k heads_in_body [])) ib_tag_arms 13 FT Hk). }
+  assert (Fmt : In 13 [24; 25; 26; 27] -> exists g, t = KTag g /\ is_formatting (tg_name g) = true).
+  { intro Hk. apply (head_named_prop is_formatting (nth 13 heads_in_body [])); [|exact Hm].
+    exact (forallb_nth_in (fun k => forallb (atom_names is_formatting false) (nth k heads_in_body [])) [24; 25; 26; 27] 13 FF Hk). }
+  assert (NotC : In 13 [0; 2; 7] -> is_chars t = false).
+  { intro Hk. apply (head_not_chars (nth 13 heads_in_body [])); [|exact Hm].
+    exact (forallb_nth_in (fun k => forallb atom_not_chars (nth k heads_in_body [])) [0; 2; 7] 13 FN Hk). }
+  safe_arm Safe. eapply wp_mono; [apply ib_13_ok; assumption | exact DoneFin].
+Qed.
+
+Lemma ib_spec_14 ih it self : ib_cb ih it self -> ib_arm_spec 14 (ib_arm_14 ih it self).
+Proof.
+  ib_setup.
+  assert (Safe : In 14 ib_safe_arms -> exists g, t = KTag g /\ tg_name g <> nm "html" /\
+            (ns_html, tg_name g) <> (ns_html, nm "head") /\ (ns_html, tg_name g) <> (ns_html, nm "template")).
+  { intro Hk. apply (head_safe (nth 14 heads_in_body [])); [|exact Hm].
+    exact (forallb_nth_in (fun k => forallb (atom_names safe_name false) (nth k heads_in_body [])) ib_safe_arms 14 FS Hk). }
+  assert (Tag : In 14 ib_tag_arms -> exists g, t = KTag g).
+  { intro Hk. apply (head_all_tag (nth 14 heads_in_body [])); [|exact Hm].
+    exact (forallb_nth_in (fun k => forallb atom_is_tag (nth k heads_in_body [])) ib_tag_arms 14 FT Hk). }
+  assert (Fmt : In 14 [24; 25; 26; 27] -> exists g, t = KTag g /\ is_formatting (tg_name g) = true).
+  { intro Hk. apply (head_named_prop is_formatting (nth 14 heads_in_body [])); [|exact Hm].
+    exact (forallb_nth_in (fun k => forallb (atom_names is_formatting false) (nth k heads_in_body [])) [24; 25; 26; 27] 14 FF Hk). }
+  assert (NotC : In 14 [0; 2; 7] -> is_chars t = false).
+  { intro Hk. apply (head_not_chars (nth 14 heads_in_body [])); [|exact Hm].
+    exact (forallb_nth_in (fun k => forallb atom_not_chars (nth k heads_in_body [])) [0; 2; 7] 14 FN Hk). }
+  destruct (head_named_prop _ _ _ F14 Hm) as (g & -> & Nf). apply is_n_eq in Nf.
     eapply wp_mono; [apply ib_14_ok; assumption | exact DoneFin].
-  - (* 15 *) destruct (head_named_prop _ _ _ F15 Hm) as (g & -> & Nl). unfold li_name in Nl. apply andb_true_iff in Nl. destruct Nl as [Nl Ns].
+Qed.
+
+Lemma ib_spec_15 ih it self : ib_cb ih it self -> ib_arm_spec 15 (ib_arm_15 ih it self).
+Proof.
+  ib_setup.
+  assert (Safe : In 15 ib_safe_arms -> exists g, t = KTag g /\ tg_name g <> nm "html" /\
+            (ns_html, tg_name g) <> (ns_html, nm "head") /\ (ns_html, tg_name g) <> (ns_html, nm "template")).
+  { intro Hk. apply (head_safe (nth 15 heads_in_body [])); [|exact Hm].
+    exact (forallb_nth_in (fun k => forallb (atom_names safe_name false) (nth k heads_in_body [])) ib_safe_arms 15 FS Hk). }
+  assert (Tag : In 15 ib_tag_arms -> exists g, t = KTag g).
+  { intro Hk. apply (head_all_tag (nth 15 heads_in_body [])); [|exact Hm].
+    exact (forallb_nth_in (fun k => forallb atom_is_tag (nth k heads_in_body [])) ib_tag_arms 15 FT Hk). }
+  assert (Fmt : In 15 [24; 25; 26; 27] -> exists g, t = KTag g /\ is_formatting (tg_name g) = true).
+  { intro Hk. apply (head_named_prop is_formatting (nth 15 heads_in_body [])); [|exact Hm].
+    exact (forallb_nth_in (fun k => forallb (atom_names is_formatting false) (nth k heads_in_body [])) [24; 25; 26; 27] 15 FF Hk). }
+  assert (NotC : In 15 [0; 2; 7] -> is_chars t = false).
+  { intro Hk. apply (head_not_chars (nth 15 heads_in_body [])); [|exact Hm].
+    exact (forallb_nth_in (fun k => forallb atom_not_chars (nth k heads_in_body [])) [0; 2; 7] 15 FN Hk). }
+  destruct (head_named_prop _ _ _ F15 Hm) as (g & -> & Nl). unfold li_name in Nl. apply andb_true_iff in Nl. destruct Nl as [Nl Ns].
     destruct (safe_name_props _ Ns) as (N0 & N1 & N2).
     eapply wp_mono; [apply ib_15_ok; assumption | exact DoneFin].
-  - (* 16 *) safe_arm Safe. eapply wp_mono; [apply ib_16_ok; assumption | apply TagFin; reflexivity].
-  - (* 17 *) safe_arm Safe. eapply wp_mono; [apply ib_17_ok; assumption | exact DoneFin].
-  - (* 18 *) destruct (head_named_prop _ _ _ F18 Hm) as (g & -> & Nb). destruct (end_block_name_props _ Nb) as [N0 Nc].
+Qed.
+
+Lemma ib_spec_16 ih it self : ib_cb ih it self -> ib_arm_spec 16 (ib_arm_16 ih it self).
+Proof.
+  ib_setup.
+  assert (Safe : In 16 ib_safe_arms -> exists g, t = KTag g /\ tg_name g <> nm "html" /\
+            (ns_html, tg_name g) <> (ns_html, nm "head") /\ (ns_html, tg_name g) <> (ns_html, nm "template")).
+  { intro Hk. apply (head_safe (nth 16 heads_in_body [])); [|exact Hm].
+    exact (forallb_nth_in (fun k => forallb (atom_names safe_name false) (nth k heads_in_body [])) ib_safe_arms 16 FS Hk). }
+  assert (Tag : In 16 ib_tag_arms -> exists g, t = KTag g).
+  { intro Hk. apply (head_all_tag (nth 16 heads_in_body [])); [|exact Hm].
+    exact (forallb_nth_in (fun k => forallb atom_is_tag (nth k heads_in_body [])) ib_tag_arms 16 FT Hk). }
+  assert (Fmt : In 16 [24; 25; 26; 27] -> exists g, t = KTag g /\ is_formatting (tg_name g) = true).
+  { intro Hk. apply (head_named_prop is_formatting (nth 16 heads_in_body [])); [|exact Hm].
+    exact (forallb_nth_in (fun k => forallb (atom_names is_formatting false) (nth k heads_in_body [])) [24; 25; 26; 27] 16 FF Hk). }
+  assert (NotC : In 16 [0; 2; 7] -> is_chars t = false).
+  { intro Hk. apply (head_not_chars (nth 16 heads_in_body [])); [|exact Hm].
+    exact (forallb_nth_in (fun k => forallb atom_not_chars (nth k heads_in_body [])) [0; 2; 7] 16 FN Hk). }
+  safe_arm Safe. eapply wp_mono; [apply ib_16_ok; assumption | apply TagFin; reflexivity].
+Qed.
+
+Lemma ib_spec_17 ih it self : ib_cb ih it self -> ib_arm_spec 17 (ib_arm_17 ih it self).
+Proof.
+  ib_setup.
+  assert (Safe : In 17 ib_safe_arms -> exists g, t = KTag g /\ tg_name g <> nm "html" /\
+            (ns_html, tg_name g) <> (ns_html, nm "head") /\ (ns_html, tg_name g) <> (ns_html, nm "template")).
+  { intro Hk. apply (head_safe (nth 17 heads_in_body [])); [|exact Hm].
+    exact (forallb_nth_in (fun k => forallb (atom_names safe_name false) (nth k heads_in_body [])) ib_safe_arms 17 FS Hk). }
+  assert (Tag : In 17 ib_tag_arms -> exists g, t = KTag g).
+  { intro Hk. apply (head_all_tag (nth 17 heads_in_body [])); [|exact Hm].
+    exact (forallb_nth_in (fun k => forallb atom_is_tag (nth k heads_in_body [])) ib_tag_arms 17 FT Hk). }
+  assert (Fmt : In 17 [24; 25; 26; 27] -> exists g, t = KTag g /\ is_formatting (tg_name g) = true).
+  { intro Hk. apply (head_named_prop is_formatting (nth 17 heads_in_body [])); [|exact Hm].
+    exact (forallb_nth_in (fun k => forallb (atom_names is_formatting false) (nth k heads_in_body [])) [24; 25; 26; 27] 17 FF Hk). }
+  assert (NotC : In 17 [0; 2; 7] -> is_chars t = false).
+  { intro Hk. apply (head_not_chars (nth 17 heads_in_body [])); [|exact Hm].
+    exact (forallb_nth_in (fun k => forallb atom_not_chars (nth k heads_in_body [])) [0; 2; 7] 17 FN Hk). }
+  safe_arm Safe. eapply wp_mono; [apply ib_17_ok; assumption | exact DoneFin].
+Qed.
+
+Lemma ib_spec_18 ih it self : ib_cb ih it self -> ib_arm_spec 18 (ib_arm_18 ih it self).
+Proof.
+  ib_setup.
+  assert (Safe : In 18 ib_safe_arms -> exists g, t = KTag g /\ tg_name g <> nm "html" /\
+            (ns_html, tg_name g) <> (ns_html, nm "head") /\ (ns_html, tg_name g) <> (ns_html, nm "template")).
+  { intro Hk. apply (head_safe (nth 18 heads_in_body [])); [|exact Hm].
+    exact (forallb_nth_in (fun k => forallb (atom_names safe_name false) (nth k heads_in_body [])) ib_safe_arms 18 FS Hk). }
+  assert (Tag : In 18 ib_tag_arms -> exists g, t = KTag g).
+  { intro Hk. apply (head_all_tag (nth 18 heads_in_body [])); [|exact Hm].
+    exact (forallb_nth_in (fun k => forallb atom_is_tag (nth k heads_in_body [])) ib_tag_arms 18 FT Hk). }
+  assert (Fmt : In 18 [24; 25; 26; 27] -> exists g, t = KTag g /\ is_formatting (tg_name g) = true).
+  { intro Hk. apply (head_named_prop is_formatting (nth 18 heads_in_body [])); [|exact Hm].
+    exact (forallb_nth_in (fun k => forallb (atom_names is_formatting false) (nth k heads_in_body [])) [24; 25; 26; 27] 18 FF Hk). }
+  assert (NotC : In 18 [0; 2; 7] -> is_chars t = false).
+  { intro Hk. apply (head_not_chars (nth 18 heads_in_body [])); [|exact Hm].
+    exact (forallb_nth_in (fun k => forallb atom_not_chars (nth k heads_in_body [])) [0; 2; 7] 18 FN Hk). }
+  destruct (head_named_prop _ _ _ F18 Hm) as (g & -> & Nb). destruct (end_block_name_props _ Nb) as [N0 Nc].
     unfold ib_arm_18. eapply wp_mono; [apply ib_end_block_ok; assumption | exact DoneFin].
-  - (* 19 *) unfold ib_arm_19. eapply wp_mono; [apply ib_form_end_ok; assumption | exact DoneFin].
-  - (* 20 *) safe_arm Safe. eapply wp_mono; [apply ib_20_ok; assumption | exact DoneFin].
-  - (* 21 *) eapply wp_mono; [apply ib_21_ok; assumption | exact DoneFin].
-  - (* 22 *) safe_arm Safe. eapply wp_mono; [apply ib_22_ok; assumption | exact DoneFin].
-  - (* 23 *) eapply wp_mono; [apply ib_23_ok; assumption | exact DoneFin].
-  - (* 24 *) destruct Fmt as (g & -> & Fg); [simpl; tauto|]. eapply wp_mono; [apply ib_24_ok; assumption | exact DoneFin].
-  - (* 25 *) destruct Fmt as (g & -> & Fg); [simpl; tauto|]. eapply wp_mono; [apply ib_25_ok; assumption | exact DoneFin].
-  - (* 26 *) destruct Fmt as (g & -> & Fg); [simpl; tauto|]. eapply wp_mono; [apply ib_26_ok; assumption | exact DoneFin].
-  - (* 27 *) destruct Fmt as (g & -> & Fg); [simpl; tauto|]. eapply wp_mono; [apply ib_27_ok; assumption | exact DoneFin].
-  - (* 28 *) safe_arm Safe. eapply wp_mono; [apply ib_28_ok; assumption | exact DoneFin].
-  - (* 29 *) destruct (head_named_prop _ _ _ F29 Hm) as (g & -> & Nb). destruct (end_block_name_props _ Nb) as [N0 Nc].
+Qed.
+
+Lemma ib_spec_19 ih it self : ib_cb ih it self -> ib_arm_spec 19 (ib_arm_19 ih it self).
+Proof.
+  ib_setup.
+  assert (Safe : In 19 ib_safe_arms -> exists g, t = KTag g /\ tg_name g <> nm "html" /\
+            (ns_html, tg_name g) <> (ns_html, nm "head") /\ (ns_html, tg_name g) <> (ns_html, nm "template")).
+  { intro Hk. apply (head_safe (nth 19 heads_in_body [])); [|exact Hm].
+    exact (forallb_nth_in (fun k => forallb (atom_names safe_name false) (nth k heads_in_body [])) ib_safe_arms 19 FS Hk). }
+  assert (Tag : In 19 ib_tag_arms -> exists g, t = KTag g).
+  { intro Hk. apply (head_all_tag (nth 19 heads_in_body [])); [|exact Hm].
+    exact (forallb_nth_in (fun k => forallb atom_is_tag (nth k heads_in_body [])) ib_tag_arms 19 FT Hk). }
+  assert (Fmt : In 19 [24; 25; 26; 27] -> exists g, t = KTag g /\ is_formatting (tg_name g) = true).
+  { intro Hk. apply (head_named_prop is_formatting (nth 19 heads_in_body [])); [|exact Hm].
+    exact (forallb_nth_in (fun k => forallb (atom_names is_formatting false) (nth k heads_in_body [])) [24; 25; 26; 27] 19 FF Hk). }
+  assert (NotC : In 19 [0; 2; 7] -> is_chars t = false).
+  { intro Hk. apply (head_not_chars (nth 19 heads_in_body [])); [|exact Hm].
+    exact (forallb_nth_in (fun k => forallb atom_not_chars (nth k heads_in_body [])) [0; 2; 7] 19 FN Hk). }
+  unfold ib_arm_19. eapply wp_mono; [apply ib_form_end_ok; assumption | exact DoneFin].
+Qed.
+
+Lemma ib_spec_20 ih it self : ib_cb ih it self -> ib_arm_spec 20 (ib_arm_20 ih it self).
+Proof.
+  ib_setup.
+  assert (Safe : In 20 ib_safe_arms -> exists g, t = KTag g /\ tg_name g <> nm "html" /\
+            (ns_html, tg_name g) <> (ns_html, nm "head") /\ (ns_html, tg_name g) <> (ns_html, nm "template")).
+  { intro Hk. apply (head_safe (nth 20 heads_in_body [])); [|exact Hm].
+    exact (forallb_nth_in (fun k => forallb (atom_names safe_name false) (nth k heads_in_body [])) ib_safe_arms 20 FS Hk). }
+  assert (Tag : In 20 ib_tag_arms -> exists g, t = KTag g).
+  { intro Hk. apply (head_all_tag (nth 20 heads_in_body [])); [|exact Hm].
+    exact (forallb_nth_in (fun k => forallb atom_is_tag (nth k heads_in_body [])) ib_tag_arms 20 FT Hk). }
+  assert (Fmt : In 20 [24; 25; 26; 27] -> exists g, t = KTag g /\ is_formatting (tg_name g) = true).
+  { intro Hk. apply (head_named_prop is_formatting (nth 20 heads_in_body [])); [|exact Hm].
+    exact (forallb_nth_in (fun k => forallb (atom_names is_formatting false) (nth k heads_in_body [])) [24; 25; 26; 27] 20 FF Hk). }
+  assert (NotC : In 20 [0; 2; 7] -> is_chars t = false).
+  { intro Hk. apply (head_not_chars (nth 20 heads_in_body [])); [|exact Hm].
+    exact (forallb_nth_in (fun k => forallb atom_not_chars (nth k heads_in_body [])) [0; 2; 7] 20 FN Hk). }
+  safe_arm Safe. eapply wp_mono; [apply ib_20_ok; assumption | exact DoneFin].
+Qed.
+
+Lemma ib_spec_21 ih it self : ib_cb ih it self -> ib_arm_spec 21 (ib_arm_21 ih it self).
+Proof.
+  ib_setup.
+  assert (Safe : In 21 ib_safe_arms -> exists g, t = KTag g /\ tg_name g <> nm "html" /\
+            (ns_html, tg_name g) <> (ns_html, nm "head") /\ (ns_html, tg_name g) <> (ns_html, nm "template")).
+  { intro Hk. apply (head_safe (nth 21 heads_in_body [])); [|exact Hm].
+    exact (forallb_nth_in (fun k => forallb (atom_names safe_name false) (nth k heads_in_body [])) ib_safe_arms 21 FS Hk). }
+  assert (Tag : In 21 ib_tag_arms -> exists g, t = KTag g).
+  { intro Hk. apply (head_all_tag (nth 21 heads_in_body [])); [|exact Hm].
+    exact (forallb_nth_in (fun k => forallb atom_is_tag (nth k heads_in_body [])) ib_tag_arms 21 FT Hk). }
+  assert (Fmt : In 21 [24; 25; 26; 27] -> exists g, t = KTag g /\ is_formatting (tg_name g) = true).
+  { intro Hk. apply (head_named_prop is_formatting (nth 21 heads_in_body [])); [|exact Hm].
+    exact (forallb_nth_in (fun k => forallb (atom_names is_formatting false) (nth k heads_in_body [])) [24; 25; 26; 27] 21 FF Hk). }
+  assert (NotC : In 21 [0; 2; 7] -> is_chars t = false).
+  { intro Hk. apply (head_not_chars (nth 21 heads_in_body [])); [|exact Hm].
+    exact (forallb_nth_in (fun k => forallb atom_not_chars (nth k heads_in_body [])) [0; 2; 7] 21 FN Hk). }
+  eapply wp_mono; [apply ib_21_ok; assumption | exact DoneFin].
+Qed.
+
+Lemma ib_spec_22 ih it self : ib_cb ih it self -> ib_arm_spec 22 (ib_arm_22 ih it self).
+Proof.
+  ib_setup.
+  assert (Safe : In 22 ib_safe_arms -> exists g, t = KTag g /\ tg_name g <> nm "html" /\
+            (ns_html, tg_name g) <> (ns_html, nm "head") /\ (ns_html, tg_name g) <> (ns_html, nm "template")).
+  { intro Hk. apply (head_safe (nth 22 heads_in_body [])); [|exact Hm].
+    exact (forallb_nth_in (fun k => forallb (atom_names safe_name false) (nth k heads_in_body [])) ib_safe_arms 22 FS Hk). }
+  assert (Tag : In 22 ib_tag_arms -> exists g, t = KTag g).
+  { intro Hk. apply (head_all_tag (nth 22 heads_in_body [])); [|exact Hm].
+    exact (forallb_nth_in (fun k => forallb atom_is_tag (nth k heads_in_body [])) ib_tag_arms 22 FT Hk). }
+  assert (Fmt : In 22 [24; 25; 26; 27] -> exists g, t = KTag g /\ is_formatting (tg_name g) = true).
+  { intro Hk. apply (head_named_prop is_formatting (nth 22 heads_in_body [])); [|exact Hm].
+    exact (forallb_nth_in (fun k => forallb (atom_names is_formatting false) (nth k heads_in_body [])) [24; 25; 26; 27] 22 FF Hk). }
+  assert (NotC : In 22 [0; 2; 7] -> is_chars t = false).
+  { intro Hk. apply (head_not_chars (nth 22 heads_in_body [])); [|exact Hm].
+    exact (forallb_nth_in (fun k => forallb atom_not_chars (nth k heads_in_body [])) [0; 2; 7] 22 FN Hk). }
+  safe_arm Safe. eapply wp_mono; [apply ib_22_ok; assumption | exact DoneFin].
+Qed.
+
+Lemma ib_spec_23 ih it self : ib_cb ih it self -> ib_arm_spec 23 (ib_arm_23 ih it self).
+Proof.
+  ib_setup.
+  assert (Safe : In 23 ib_safe_arms -> exists g, t = KTag g /\ tg_name g <> nm "html" /\
+            (ns_html, tg_name g) <> (ns_html, nm "head") /\ (ns_html, tg_name g) <> (ns_html, nm "template")).
+  { intro Hk. apply (head_safe (nth 23 heads_in_body [])); [|exact Hm].
+    exact (forallb_nth_in (fun k => forallb (atom_names safe_name false) (nth k heads_in_body [])) ib_safe_arms 23 FS Hk). }
+  assert (Tag : In 23 ib_tag_arms -> exists g, t = KTag g).
+  { intro Hk. apply (head_all_tag (nth 23 heads_in_body [])); [|exact Hm].
+    exact (forallb_nth_in (fun k => forallb atom_is_tag (nth k heads_in_body [])) ib_tag_arms 23 FT Hk). }
+  assert (Fmt : In 23 [24; 25; 26; 27] -> exists g, t = KTag g /\ is_formatting (tg_name g) = true).
+  { intro Hk. apply (head_named_prop is_formatting (nth 23 heads_in_body [])); [|exact Hm].
+    exact (forallb_nth_in (fun k => forallb (atom_names is_formatting false) (nth k heads_in_body [])) [24; 25; 26; 27] 23 FF Hk). }
+  assert (NotC : In 23 [0; 2; 7] -> is_chars t = false).
+  { intro Hk. apply (head_not_chars (nth 23 heads_in_body [])); [|exact Hm].
+    exact (forallb_nth_in (fun k => forallb atom_not_chars (nth k heads_in_body [])) [0; 2; 7] 23 FN Hk). }
+  eapply wp_mono; [apply ib_23_ok; assumption | exact DoneFin].
+Qed.
+
+Lemma ib_spec_24 ih it self : ib_cb ih it self -> ib_arm_spec 24 (ib_arm_24 ih it self).
+Proof.
+  ib_setup.
+  assert (Safe : In 24 ib_safe_arms -> exists g, t = KTag g /\ tg_name g <> nm "html" /\
+            (ns_html, tg_name g) <> (ns_html, nm "head") /\ (ns_html, tg_name g) <> (ns_html, nm "template")).
+  { intro Hk. apply (head_safe (nth 24 heads_in_body [])); [|exact Hm].
+    exact (forallb_nth_in (fun k => forallb (atom_names safe_name false) (nth k heads_in_body [])) ib_safe_arms 24 FS Hk). }
+  assert (Tag : In 24 ib_tag_arms -> exists g, t = KTag g).
+  { intro Hk. apply (head_all_tag (nth 24 heads_in_body [])); [|exact Hm].
+    exact (forallb_nth_in (fun k => forallb atom_is_tag (nth k heads_in_body [])) ib_tag_arms 24 FT Hk). }
+  assert (Fmt : In 24 [24; 25; 26; 27] -> exists g, t = KTag g /\ is_formatting (tg_name g) = true).
+  { intro Hk. apply (head_named_prop is_formatting (nth 24 heads_in_body [])); [|exact Hm].
+    exact (forallb_nth_in (fun k => forallb (atom_names is_formatting false) (nth k heads_in_body [])) [24; 25; 26; 27] 24 FF Hk). }
+  assert (NotC : In 24 [0; 2; 7] -> is_chars t = false).
+  { intro Hk. apply (head_not_chars (nth 24 heads_in_body [])); [|exact Hm].
+    exact (forallb_nth_in (fun k => forallb atom_not_chars (nth k heads_in_body [])) [0; 2; 7] 24 FN Hk). }
+  destruct Fmt as (g & -> & Fg); [simpl; tauto|]. eapply wp_mono; [apply ib_24_ok; assumption | exact DoneFin].
+Qed.
+
+Lemma ib_spec_25 ih it self : ib_cb ih it self -> ib_arm_spec 25 (ib_arm_25 ih it self).
+Proof.
+  ib_setup.
+  assert (Safe : In 25 ib_safe_arms -> exists g, t = KTag g /\ tg_name g <> nm "html" /\
+            (ns_html, tg_name g) <> (ns_html, nm "head") /\ (ns_html, tg_name g) <> (ns_html, nm "template")).
+  { intro Hk. apply (head_safe (nth 25 heads_in_body [])); [|exact Hm].
+    exact (forallb_nth_in (fun k => forallb (atom_names safe_name false) (nth k heads_in_body [])) ib_safe_arms 25 FS Hk). }
+  assert (Tag : In 25 ib_tag_arms -> exists g, t = KTag g).
+  { intro Hk. apply (head_all_tag (nth 25 heads_in_body [])); [|exact Hm].
+    exact (forallb_nth_in (fun k => forallb atom_is_tag (nth k heads_in_body [])) ib_tag_arms 25 FT Hk). }
+  assert (Fmt : In 25 [24; 25; 26; 27] -> exists g, t = KTag g /\ is_formatting (tg_name g) = true).
+  { intro Hk. apply (head_named_prop is_formatting (nth 25 heads_in_body [])); [|exact Hm].
+    exact (forallb_nth_in (fun k => forallb (atom_names is_formatting false) (nth k heads_in_body [])) [24; 25; 26; 27] 25 FF Hk). }
+  assert (NotC : In 25 [0; 2; 7] -> is_chars t = false).
+  { intro Hk. apply (head_not_chars (nth 25 heads_in_body [])); [|exact Hm].
+    exact (forallb_nth_in (fun k => forallb atom_not_chars (nth k heads_in_body [])) [0; 2; 7] 25 FN Hk). }
+  destruct Fmt as (g & -> & Fg); [simpl; tauto|]. eapply wp_mono; [apply ib_25_ok; assumption | exact DoneFin].
+Qed.
+
+Lemma ib_spec_26 ih it self : ib_cb ih it self -> ib_arm_spec 26 (ib_arm_26 ih it self).
+Proof.
+  ib_setup.
+  assert (Safe : In 26 ib_safe_arms -> exists g, t = KTag g /\ tg_name g <> nm "html" /\
+            (ns_html, tg_name g) <> (ns_html, nm "head") /\ (ns_html, tg_name g) <> (ns_html, nm "template")).
+  { intro Hk. apply (head_safe (nth 26 heads_in_body [])); [|exact Hm].
+    exact (forallb_nth_in (fun k => forallb (atom_names safe_name false) (nth k heads_in_body [])) ib_safe_arms 26 FS Hk). }
+  assert (Tag : In 26 ib_tag_arms -> exists g, t = KTag g).
+  { intro Hk. apply (head_all_tag (nth 26 heads_in_body [])); [|exact Hm].
+    exact (forallb_nth_in (fun k => forallb atom_is_tag (nth k heads_in_body [])) ib_tag_arms 26 FT Hk). }
+  assert (Fmt : In 26 [24; 25; 26; 27] -> exists g, t = KTag g /\ is_formatting (tg_name g) = true).
+  { intro Hk. apply (head_named_prop is_formatting (nth 26 heads_in_body [])); [|exact Hm].
+    exact (forallb_nth_in (fun k => forallb (atom_names is_formatting false) (nth k heads_in_body [])) [24; 25; 26; 27] 26 FF Hk). }
+  assert (NotC : In 26 [0; 2; 7] -> is_chars t = false).
+  { intro Hk. apply (head_not_chars (nth 26 heads_in_body [])); [|exact Hm].
+    exact (forallb_nth_in (fun k => forallb atom_not_chars (nth k heads_in_body [])) [0; 2; 7] 26 FN Hk). }
+  destruct Fmt as (g & -> & Fg); [simpl; tauto|]. eapply wp_mono; [apply ib_26_ok; assumption | exact DoneFin].
+Qed.
+
+Lemma ib_spec_27 ih it self : ib_cb ih it self -> ib_arm_spec 27 (ib_arm_27 ih it self).
+Proof.
+  ib_setup.
+  assert (Safe : In 27 ib_safe_arms -> exists g, t = KTag g /\ tg_name g <> nm "html" /\
+            (ns_html, tg_name g) <> (ns_html, nm "head") /\ (ns_html, tg_name g) <> (ns_html, nm "template")).
+  { intro Hk. apply (head_safe (nth 27 heads_in_body [])); [|exact Hm].
+    exact (forallb_nth_in (fun k => forallb (atom_names safe_name false) (nth k heads_in_body [])) ib_safe_arms 27 FS Hk). }
+  assert (Tag : In 27 ib_tag_arms -> exists g, t = KTag g).
+  { intro Hk. apply (head_all_tag (nth 27 heads_in_body [])); [|exact Hm].
+    exact (forallb_nth_in (fun k => forallb atom_is_tag (nth k heads_in_body [])) ib_tag_arms 27 FT Hk). }
+  assert (Fmt : In 27 [24; 25; 26; 27] -> exists g, t = KTag g /\ is_formatting (tg_name g) = true).
+  { intro Hk. apply (head_named_prop is_formatting (nth 27 heads_in_body [])); [|exact Hm].
+    exact (forallb_nth_in (fun k => forallb (atom_names is_formatting false) (nth k heads_in_body [])) [24; 25; 26; 27] 27 FF Hk). }
+  assert (NotC : In 27 [0; 2; 7] -> is_chars t = false).
+  { intro Hk. apply (head_not_chars (nth 27 heads_in_body [])); [|exact Hm].
+    exact (forallb_nth_in (fun k => forallb atom_not_chars (nth k heads_in_body [])) [0; 2; 7] 27 FN Hk). }
+  destruct Fmt as (g & -> & Fg); [simpl; tauto|]. eapply wp_mono; [apply ib_27_ok; assumption | exact DoneFin].
+Qed.
+
+Lemma ib_spec_28 ih it self : ib_cb ih it self -> ib_arm_spec 28 (ib_arm_28 ih it self).
+Proof.
+  ib_setup.
+  assert (Safe : In 28 ib_safe_arms -> exists g, t = KTag g /\ tg_name g <> nm "html" /\
+            (ns_html, tg_name g) <> (ns_html, nm "head") /\ (ns_html, tg_name g) <> (ns_html, nm "template")).
+  { intro Hk. apply (head_safe (nth 28 heads_in_body [])); [|exact Hm].
+    exact (forallb_nth_in (fun k => forallb (atom_names safe_name false) (nth k heads_in_body [])) ib_safe_arms 28 FS Hk). }
+  assert (Tag : In 28 ib_tag_arms -> exists g, t = KTag g).
+  { intro Hk. apply (head_all_tag (nth 28 heads_in_body [])); [|exact Hm].
+    exact (forallb_nth_in (fun k => forallb atom_is_tag (nth k heads_in_body [])) ib_tag_arms 28 FT Hk). }
+  assert (Fmt : In 28 [24; 25; 26; 27] -> exists g, t = KTag g /\ is_formatting (tg_name g) = true).
+  { intro Hk. apply (head_named_prop is_formatting (nth 28 heads_in_body [])); [|exact Hm].
+    exact (forallb_nth_in (fun k => forallb (atom_names is_formatting false) (nth k heads_in_body [])) [24; 25; 26; 27] 28 FF Hk). }
+  assert (NotC : In 28 [0; 2; 7] -> is_chars t = false).
+  { intro Hk. apply (head_not_chars (nth 28 heads_in_body [])); [|exact Hm].
+    exact (forallb_nth_in (fun k => forallb atom_not_chars (nth k heads_in_body [])) [0; 2; 7] 28 FN Hk). }
+  safe_arm Safe. eapply wp_mono; [apply ib_28_ok; assumption | exact DoneFin].
+Qed.
+
+Lemma ib_spec_29 ih it self : ib_cb ih it self -> ib_arm_spec 29 (ib_arm_29 ih it self).
+Proof.
+  ib_setup.
+  assert (Safe : In 29 ib_safe_arms -> exists g, t = KTag g /\ tg_name g <> nm "html" /\
+            (ns_html, tg_name g) <> (ns_html, nm "head") /\ (ns_html, tg_name g) <> (ns_html, nm "template")).
+  { intro Hk. apply (head_safe (nth 29 heads_in_body [])); [|exact Hm].
+    exact (forallb_nth_in (fun k => forallb (atom_names safe_name false) (nth k heads_in_body [])) ib_safe_arms 29 FS Hk). }
+  assert (Tag : In 29 ib_tag_arms -> exists g, t = KTag g).
+  { intro Hk. apply (head_all_tag (nth 29 heads_in_body [])); [|exact Hm].
+    exact (forallb_nth_in (fun k => forallb atom_is_tag (nth k heads_in_body [])) ib_tag_arms 29 FT Hk). }
+  assert (Fmt : In 29 [24; 25; 26; 27] -> exists g, t = KTag g /\ is_formatting (tg_name g) = true).
+  { intro Hk. apply (head_named_prop is_formatting (nth 29 heads_in_body [])); [|exact Hm].
+    exact (forallb_nth_in (fun k => forallb (atom_names is_formatting false) (nth k heads_in_body [])) [24; 25; 26; 27] 29 FF Hk). }
+  assert (NotC : In 29 [0; 2; 7] -> is_chars t = false).
+  { intro Hk. apply (head_not_chars (nth 29 heads_in_body [])); [|exact Hm].
+    exact (forallb_nth_in (fun k => forallb atom_not_chars (nth k heads_in_body [])) [0; 2; 7] 29 FN Hk). }
+  destruct (head_named_prop _ _ _ F29 Hm) as (g & -> & Nb). destruct (end_block_name_props _ Nb) as [N0 Nc].
     eapply wp_mono; [apply ib_29_ok; assumption | exact DoneFin].
-  - (* 30 *) safe_arm Safe. eapply wp_mono; [apply ib_30_ok; try assumption; apply NSof; reflexivity | exact DoneFin].
-  - (* 31 </br> *) destruct (head_named_prop _ _ _ F31 Hm) as (g & -> & Nbr). apply is_n_eq in Nbr.
+Qed.
+
+Lemma ib_spec_30 ih it self : ib_cb ih it self -> ib_arm_spec 30 (ib_arm_30 ih it self).
+Proof.
+  ib_setup.
+  assert (Safe : In 30 ib_safe_arms -> exists g, t = KTag g /\ tg_name g <> nm "html" /\
+            (ns_html, tg_name g) <> (ns_html, nm "head") /\ (ns_html, tg_name g) <> (ns_html, nm "template")).
+  { intro Hk. apply (head_safe (nth 30 heads_in_body [])); [|exact Hm].
+    exact (forallb_nth_in (fun k => forallb (atom_names safe_name false) (nth k heads_in_body [])) ib_safe_arms 30 FS Hk). }
+  assert (Tag : In 30 ib_tag_arms -> exists g, t = KTag g).
+  { intro Hk. apply (head_all_tag (nth 30 heads_in_body [])); [|exact Hm].
+    exact (forallb_nth_in (fun k => forallb atom_is_tag (nth k heads_in_body [])) ib_tag_arms 30 FT Hk). }
+  assert (Fmt : In 30 [24; 25; 26; 27] -> exists g, t = KTag g /\ is_formatting (tg_name g) = true).
+  { intro Hk. apply (head_named_prop is_formatting (nth 30 heads_in_body [])); [|exact Hm].
+    exact (forallb_nth_in (fun k => forallb (atom_names is_formatting false) (nth k heads_in_body [])) [24; 25; 26; 27] 30 FF Hk). }
+  assert (NotC : In 30 [0; 2; 7] -> is_chars t = false).
+  { intro Hk. apply (head_not_chars (nth 30 heads_in_body [])); [|exact Hm].
+    exact (forallb_nth_in (fun k => forallb atom_not_chars (nth k heads_in_body [])) [0; 2; 7] 30 FN Hk). }
+  safe_arm Safe. eapply wp_mono; [apply ib_30_ok; try assumption; apply NSof; reflexivity | exact DoneFin].
+Qed.
+
+Lemma ib_spec_31 ih it self : ib_cb ih it self -> ib_arm_spec 31 (ib_arm_31 ih it self).
+Proof.
+  ib_setup.
+  assert (Safe : In 31 ib_safe_arms -> exists g, t = KTag g /\ tg_name g <> nm "html" /\
+            (ns_html, tg_name g) <> (ns_html, nm "head") /\ (ns_html, tg_name g) <> (ns_html, nm "template")).
+  { intro Hk. apply (head_safe (nth 31 heads_in_body [])); [|exact Hm].
+    exact (forallb_nth_in (fun k => forallb (atom_names safe_name false) (nth k heads_in_body [])) ib_safe_arms 31 FS Hk). }
+  assert (Tag : In 31 ib_tag_arms -> exists g, t = KTag g).
+  { intro Hk. apply (head_all_tag (nth 31 heads_in_body [])); [|exact Hm].
+    exact (forallb_nth_in (fun k => forallb atom_is_tag (nth k heads_in_body [])) ib_tag_arms 31 FT Hk). }
+  assert (Fmt : In 31 [24; 25; 26; 27] -> exists g, t = KTag g /\ is_formatting (tg_name g) = true).
+  { intro Hk. apply (head_named_prop is_formatting (nth 31 heads_in_body [])); [|exact Hm].
+    exact (forallb_nth_in (fun k => forallb (atom_names is_formatting false) (nth k heads_in_body [])) [24; 25; 26; 27] 31 FF Hk). }
+  assert (NotC : In 31 [0; 2; 7] -> is_chars t = false).
+  { intro Hk. apply (head_not_chars (nth 31 heads_in_body [])); [|exact Hm].
+    exact (forallb_nth_in (fun k => forallb atom_not_chars (nth k heads_in_body [])) [0; 2; 7] 31 FN Hk). }
+  destruct (head_named_prop _ _ _ F31 Hm) as (g & -> & Nbr). apply is_n_eq in Nbr.
     unfold ib_arm_31. rewrite wp_bind, wp_parse_error. cbn [tk_tag].
     eapply wp_mono; [apply HSelf; [eapply TInv_core_eq; [apply core_eq_set_out | exact I1] | exact L1 | apply NSof; reflexivity | constructor | reflexivity | left; exact Nbr]|].
     intros r s' [P _]. split; [split; [|apply res_ok_nonchars; reflexivity] | intro X; discriminate].
     destruct r; exact P.
-  - (* 32 *) safe_arm Safe. unfold ib_arm_32. eapply wp_mono; [apply ib_void_ok; assumption | apply TagFin; reflexivity].
-  - (* 33 *) safe_arm Safe. eapply wp_mono; [apply ib_33_ok; assumption | apply TagFin; reflexivity].
-  - (* 34 *) safe_arm Safe. eapply wp_mono; [apply ib_34_ok; assumption | apply TagFin; reflexivity].
-  - (* 35 *) safe_arm Safe. eapply wp_mono; [apply ib_35_ok; assumption | apply TagFin; reflexivity].
-  - (* 36 <image> *) destruct (head_named_prop _ _ _ F36n Hm) as (g & -> & Nim).
+Qed.
+
+Lemma ib_spec_32 ih it self : ib_cb ih it self -> ib_arm_spec 32 (ib_arm_32 ih it self).
+Proof.
+  ib_setup.
+  assert (Safe : In 32 ib_safe_arms -> exists g, t = KTag g /\ tg_name g <> nm "html" /\
+            (ns_html, tg_name g) <> (ns_html, nm "head") /\ (ns_html, tg_name g) <> (ns_html, nm "template")).
+  { intro Hk. apply (head_safe (nth 32 heads_in_body [])); [|exact Hm].
+    exact (forallb_nth_in (fun k => forallb (atom_names safe_name false) (nth k heads_in_body [])) ib_safe_arms 32 FS Hk). }
+  assert (Tag : In 32 ib_tag_arms -> exists g, t = KTag g).
+  { intro Hk. apply (head_all_tag (nth 32 heads_in_body [])); [|exact Hm].
+    exact (forallb_nth_in (fun k => forallb atom_is_tag (nth k heads_in_body [])) ib_tag_arms 32 FT Hk). }
+  assert (Fmt : In 32 [24; 25; 26; 27] -> exists g, t = KTag g /\ is_formatting (tg_name g) = true).
+  { intro Hk. apply (head_named_prop is_formatting (nth 32 heads_in_body [])); [|exact Hm].
+    exact (forallb_nth_in (fun k => forallb (atom_names is_formatting false) (nth k heads_in_body [])) [24; 25; 26; 27] 32 FF Hk). }
+  assert (NotC : In 32 [0; 2; 7] -> is_chars t = false).
+  { intro Hk. apply (head_not_chars (nth 32 heads_in_body [])); [|exact Hm].
+    exact (forallb_nth_in (fun k => forallb atom_not_chars (nth k heads_in_body [])) [0; 2; 7] 32 FN Hk). }
+  safe_arm Safe. unfold ib_arm_32. eapply wp_mono; [apply ib_void_ok; assumption | apply TagFin; reflexivity].
+Qed.
+
+Lemma ib_spec_33 ih it self : ib_cb ih it self -> ib_arm_spec 33 (ib_arm_33 ih it self).
+Proof.
+  ib_setup.
+  assert (Safe : In 33 ib_safe_arms -> exists g, t = KTag g /\ tg_name g <> nm "html" /\
+            (ns_html, tg_name g) <> (ns_html, nm "head") /\ (ns_html, tg_name g) <> (ns_html, nm "template")).
+  { intro Hk. apply (head_safe (nth 33 heads_in_body [])); [|exact Hm].
+    exact (forallb_nth_in (fun k => forallb (atom_names safe_name false) (nth k heads_in_body [])) ib_safe_arms 33 FS Hk). }
+  assert (Tag : In 33 ib_tag_arms -> exists g, t = KTag g).
+  { intro Hk. apply (head_all_tag (nth 33 heads_in_body [])); [|exact Hm].
+    exact (forallb_nth_in (fun k => forallb atom_is_tag (nth k heads_in_body [])) ib_tag_arms 33 FT Hk). }
+  assert (Fmt : In 33 [24; 25; 26; 27] -> exists g, t = KTag g /\ is_formatting (tg_name g) = true).
+  { intro Hk. apply (head_named_prop is_formatting (nth 33 heads_in_body [])); [|exact Hm].
+    exact (forallb_nth_in (fun k => forallb (atom_names is_formatting false) (nth k heads_in_body [])) [24; 25; 26; 27] 33 FF Hk). }
+  assert (NotC : In 33 [0; 2; 7] -> is_chars t = false).
+  { intro Hk. apply (head_not_chars (nth 33 heads_in_body [])); [|exact Hm].
+    exact (forallb_nth_in (fun k => forallb atom_not_chars (nth k heads_in_body [])) [0; 2; 7] 33 FN Hk). }
+  safe_arm Safe. eapply wp_mono; [apply ib_33_ok; assumption | apply TagFin; reflexivity].
+Qed.
+
+Lemma ib_spec_34 ih it self : ib_cb ih it self -> ib_arm_spec 34 (ib_arm_34 ih it self).
+Proof.
+  ib_setup.
+  assert (Safe : In 34 ib_safe_arms -> exists g, t = KTag g /\ tg_name g <> nm "html" /\
+            (ns_html, tg_name g) <> (ns_html, nm "head") /\ (ns_html, tg_name g) <> (ns_html, nm "template")).
+  { intro Hk. apply (head_safe (nth 34 heads_in_body [])); [|exact Hm].
+    exact (forallb_nth_in (fun k => forallb (atom_names safe_name false) (nth k heads_in_body [])) ib_safe_arms 34 FS Hk). }
+  assert (Tag : In 34 ib_tag_arms -> exists g, t = KTag g).
+  { intro Hk. apply (head_all_tag (nth 34 heads_in_body [])); [|exact Hm].
+    exact (forallb_nth_in (fun k => forallb atom_is_tag (nth k heads_in_body [])) ib_tag_arms 34 FT Hk). }
+  assert (Fmt : In 34 [24; 25; 26; 27] -> exists g, t = KTag g /\ is_formatting (tg_name g) = true).
+  { intro Hk. apply (head_named_prop is_formatting (nth 34 heads_in_body [])); [|exact Hm].
+    exact (forallb_nth_in (fun k => forallb (atom_names is_formatting false) (nth k heads_in_body [])) [24; 25; 26; 27] 34 FF Hk). }
+  assert (NotC : In 34 [0; 2; 7] -> is_chars t = false).
+  { intro Hk. apply (head_not_chars (nth 34 heads_in_body [])); [|exact Hm].
+    exact (forallb_nth_in (fun k => forallb atom_not_chars (nth k heads_in_body [])) [0; 2; 7] 34 FN Hk). }
+  safe_arm Safe. eapply wp_mono; [apply ib_34_ok; assumption | apply TagFin; reflexivity].
+Qed.
+
+Lemma ib_spec_35 ih it self : ib_cb ih it self -> ib_arm_spec 35 (ib_arm_35 ih it self).
+Proof.
+  ib_setup.
+  assert (Safe : In 35 ib_safe_arms -> exists g, t = KTag g /\ tg_name g <> nm "html" /\
+            (ns_html, tg_name g) <> (ns_html, nm "head") /\ (ns_html, tg_name g) <> (ns_html, nm "template")).
+  { intro Hk. apply (head_safe (nth 35 heads_in_body [])); [|exact Hm].
+    exact (forallb_nth_in (fun k => forallb (atom_names safe_name false) (nth k heads_in_body [])) ib_safe_arms 35 FS Hk). }
+  assert (Tag : In 35 ib_tag_arms -> exists g, t = KTag g).
+  { intro Hk. apply (head_all_tag (nth 35 heads_in_body [])); [|exact Hm].
+    exact (forallb_nth_in (fun k => forallb atom_is_tag (nth k heads_in_body [])) ib_tag_arms 35 FT Hk). }
+  assert (Fmt : In 35 [24; 25; 26; 27] -> exists g, t = KTag g /\ is_formatting (tg_name g) = true).
+  { intro Hk. apply (head_named_prop is_formatting (nth 35 heads_in_body [])); [|exact Hm].
+    exact (forallb_nth_in (fun k => forallb (atom_names is_formatting false) (nth k heads_in_body [])) [24; 25; 26; 27] 35 FF Hk). }
+  assert (NotC : In 35 [0; 2; 7] -> is_chars t = false).
+  { intro Hk. apply (head_not_chars (nth 35 heads_in_body [])); [|exact Hm].
+    exact (forallb_nth_in (fun k => forallb atom_not_chars (nth k heads_in_body [])) [0; 2; 7] 35 FN Hk). }
+  safe_arm Safe. eapply wp_mono; [apply ib_35_ok; assumption | apply TagFin; reflexivity].
+Qed.
+
+Lemma ib_spec_36 ih it self : ib_cb ih it self -> ib_arm_spec 36 (ib_arm_36 ih it self).
+Proof.
+  ib_setup.
+  assert (Safe : In 36 ib_safe_arms -> exists g, t = KTag g /\ tg_name g <> nm "html" /\
+            (ns_html, tg_name g) <> (ns_html, nm "head") /\ (ns_html, tg_name g) <> (ns_html, nm "template")).
+  { intro Hk. apply (head_safe (nth 36 heads_in_body [])); [|exact Hm].
+    exact (forallb_nth_in (fun k => forallb (atom_names safe_name false) (nth k heads_in_body [])) ib_safe_arms 36 FS Hk). }
+  assert (Tag : In 36 ib_tag_arms -> exists g, t = KTag g).
+  { intro Hk. apply (head_all_tag (nth 36 heads_in_body [])); [|exact Hm].
+    exact (forallb_nth_in (fun k => forallb atom_is_tag (nth k heads_in_body [])) ib_tag_arms 36 FT Hk). }
+  assert (Fmt : In 36 [24; 25; 26; 27] -> exists g, t = KTag g /\ is_formatting (tg_name g) = true).
+  { intro Hk. apply (head_named_prop is_formatting (nth 36 heads_in_body [])); [|exact Hm].
+    exact (forallb_nth_in (fun k => forallb (atom_names is_formatting false) (nth k heads_in_body [])) [24; 25; 26; 27] 36 FF Hk). }
+  assert (NotC : In 36 [0; 2; 7] -> is_chars t = false).
+  { intro Hk. apply (head_not_chars (nth 36 heads_in_body [])); [|exact Hm].
+    exact (forallb_nth_in (fun k => forallb atom_not_chars (nth k heads_in_body [])) [0; 2; 7] 36 FN Hk). }
+  destruct (head_named_prop _ _ _ F36n Hm) as (g & -> & Nim).
     pose proof (head_all_start _ _ F36 Hm) as St.
     unfold ib_arm_36. rewrite wp_bind, wp_parse_error.
     eapply wp_mono; [apply HSelf; [eapply TInv_core_eq; [apply core_eq_set_out | exact I1] | exact L1 | apply NSof; reflexivity | exact Sc | exact St | right; reflexivity]|].
     intros r s' [P _]. split; [split; [|apply res_ok_nonchars; reflexivity] | intro X; discriminate].
     destruct r; exact P.
-  - (* 37 *) safe_arm Safe. eapply wp_mono; [apply ib_37_ok; try assumption; apply NSof; reflexivity | apply TagFin; reflexivity].
-  - (* 38 *) safe_arm Safe. eapply wp_mono; [apply ib_38_ok; try assumption; apply NSof; reflexivity | apply TagFin; reflexivity].
-  - (* 39 *) safe_arm Safe. eapply wp_mono; [apply ib_39_ok; try assumption; apply NSof; reflexivity | apply TagFin; reflexivity].
-  - (* 40 *) safe_arm Safe. eapply wp_mono; [apply ib_40_ok; try assumption; apply NSof; reflexivity | apply TagFin; reflexivity].
-  - (* 41 *) safe_arm Safe. eapply wp_mono; [apply ib_41_ok; assumption | exact DoneFin].
-  - (* 42 *) safe_arm Safe. eapply wp_mono; [apply ib_42_ok; assumption | exact DoneFin].
-  - (* 43 *) safe_arm Safe. eapply wp_mono; [apply ib_43_ok; assumption | exact DoneFin].
-  - (* 44 *) safe_arm Safe. eapply wp_mono; [apply ib_44_ok; assumption | exact DoneFin].
-  - (* 45 *) safe_arm Safe. eapply wp_mono; [apply ib_45_ok; assumption | exact DoneFin].
-  - (* 46 *) destruct Tag as [g ->]; [simpl; tauto|]. eapply wp_mono; [apply ib_46_ok; assumption | apply TagFin; reflexivity].
-  - (* 47 *) destruct Tag as [g ->]; [simpl; tauto|]. eapply wp_mono; [apply ib_47_ok; assumption | apply TagFin; reflexivity].
-  - (* 48 *) destruct Tag as [g ->]; [simpl; tauto|]. unfold ib_arm_48. eapply wp_mono; [apply armd_unexpected; exact I1 | exact DoneFin].
-  - (* 49 *) destruct Tag as [g ->]; [simpl; tauto|]. pose proof (head_all_start _ _ F49 Hm) as St.
+Qed.
+
+Lemma ib_spec_37 ih it self : ib_cb ih it self -> ib_arm_spec 37 (ib_arm_37 ih it self).
+Proof.
+  ib_setup.
+  assert (Safe : In 37 ib_safe_arms -> exists g, t = KTag g /\ tg_name g <> nm "html" /\
+            (ns_html, tg_name g) <> (ns_html, nm "head") /\ (ns_html, tg_name g) <> (ns_html, nm "template")).
+  { intro Hk. apply (head_safe (nth 37 heads_in_body [])); [|exact Hm].
+    exact (forallb_nth_in (fun k => forallb (atom_names safe_name false) (nth k heads_in_body [])) ib_safe_arms 37 FS Hk). }
+  assert (Tag : In 37 ib_tag_arms -> exists g, t = KTag g).
+  { intro Hk. apply (head_all_tag (nth 37 heads_in_body [])); [|exact Hm].
+    exact (forallb_nth_in (fun k => forallb atom_is_tag (nth k heads_in_body [])) ib_tag_arms 37 FT Hk). }
+  assert (Fmt : In 37 [24; 25; 26; 27] -> exists g, t = KTag g /\ is_formatting (tg_name g) = true).
+  { intro Hk. apply (head_named_prop is_formatting (nth 37 heads_in_body [])); [|exact Hm].
+    exact (forallb_nth_in (fun k => forallb (atom_names is_formatting false) (nth k heads_in_body [])) [24; 25; 26; 27] 37 FF Hk). }
+  assert (NotC : In 37 [0; 2; 7] -> is_chars t = false).
+  { intro Hk. apply (head_not_chars (nth 37 heads_in_body [])); [|exact Hm].
+    exact (forallb_nth_in (fun k => forallb atom_not_chars (nth k heads_in_body [])) [0; 2; 7] 37 FN Hk). }
+  safe_arm Safe. eapply wp_mono; [apply ib_37_ok; try assumption; apply NSof; reflexivity | apply TagFin; reflexivity].
+Qed.
+
+Lemma ib_spec_38 ih it self : ib_cb ih it self -> ib_arm_spec 38 (ib_arm_38 ih it self).
+Proof.
+  ib_setup.
+  assert (Safe : In 38 ib_safe_arms -> exists g, t = KTag g /\ tg_name g <> nm "html" /\
+            (ns_html, tg_name g) <> (ns_html, nm "head") /\ (ns_html, tg_name g) <> (ns_html, nm "template")).
+  { intro Hk. apply (head_safe (nth 38 heads_in_body [])); [|exact Hm].
+    exact (forallb_nth_in (fun k => forallb (atom_names safe_name false) (nth k heads_in_body [])) ib_safe_arms 38 FS Hk). }
+  assert (Tag : In 38 ib_tag_arms -> exists g, t = KTag g).
+  { intro Hk. apply (head_all_tag (nth 38 heads_in_body [])); [|exact Hm].
+    exact (forallb_nth_in (fun k => forallb atom_is_tag (nth k heads_in_body [])) ib_tag_arms 38 FT Hk). }
+  assert (Fmt : In 38 [24; 25; 26; 27] -> exists g, t = KTag g /\ is_formatting (tg_name g) = true).
+  { intro Hk. apply (head_named_prop is_formatting (nth 38 heads_in_body [])); [|exact Hm].
+    exact (forallb_nth_in (fun k => forallb (atom_names is_formatting false) (nth k heads_in_body [])) [24; 25; 26; 27] 38 FF Hk). }
+  assert (NotC : In 38 [0; 2; 7] -> is_chars t = false).
+  { intro Hk. apply (head_not_chars (nth 38 heads_in_body [])); [|exact Hm].
+    exact (forallb_nth_in (fun k => forallb atom_not_chars (nth k heads_in_body [])) [0; 2; 7] 38 FN Hk). }
+  safe_arm Safe. eapply wp_mono; [apply ib_38_ok; try assumption; apply NSof; reflexivity | apply TagFin; reflexivity].
+Qed.
+
+Lemma ib_spec_39 ih it self : ib_cb ih it self -> ib_arm_spec 39 (ib_arm_39 ih it self).
+Proof.
+  ib_setup.
+  assert (Safe : In 39 ib_safe_arms -> exists g, t = KTag g /\ tg_name g <> nm "html" /\
+            (ns_html, tg_name g) <> (ns_html, nm "head") /\ (ns_html, tg_name g) <> (ns_html, nm "template")).
+  { intro Hk. apply (head_safe (nth 39 heads_in_body [])); [|exact Hm].
+    exact (forallb_nth_in (fun k => forallb (atom_names safe_name false) (nth k heads_in_body [])) ib_safe_arms 39 FS Hk). }
+  assert (Tag : In 39 ib_tag_arms -> exists g, t = KTag g).
+  { intro Hk. apply (head_all_tag (nth 39 heads_in_body [])); [|exact Hm].
+    exact (forallb_nth_in (fun k => forallb atom_is_tag (nth k heads_in_body [])) ib_tag_arms 39 FT Hk). }
+  assert (Fmt : In 39 [24; 25; 26; 27] -> exists g, t = KTag g /\ is_formatting (tg_name g) = true).
+  { intro Hk. apply (head_named_prop is_formatting (nth 39 heads_in_body [])); [|exact Hm].
+    exact (forallb_nth_in (fun k => forallb (atom_names is_formatting false) (nth k heads_in_body [])) [24; 25; 26; 27] 39 FF Hk). }
+  assert (NotC : In 39 [0; 2; 7] -> is_chars t = false).
+  { intro Hk. apply (head_not_chars (nth 39 heads_in_body [])); [|exact Hm].
+    exact (forallb_nth_in (fun k => forallb atom_not_chars (nth k heads_in_body [])) [0; 2; 7] 39 FN Hk). }
+  safe_arm Safe. eapply wp_mono; [apply ib_39_ok; try assumption; apply NSof; reflexivity | apply TagFin; reflexivity].
+Qed.
+
+Lemma ib_spec_40 ih it self : ib_cb ih it self -> ib_arm_spec 40 (ib_arm_40 ih it self).
+Proof.
+  ib_setup.
+  assert (Safe : In 40 ib_safe_arms -> exists g, t = KTag g /\ tg_name g <> nm "html" /\
+            (ns_html, tg_name g) <> (ns_html, nm "head") /\ (ns_html, tg_name g) <> (ns_html, nm "template")).
+  { intro Hk. apply (head_safe (nth 40 heads_in_body [])); [|exact Hm].
+    exact (forallb_nth_in (fun k => forallb (atom_names safe_name false) (nth k heads_in_body [])) ib_safe_arms 40 FS Hk). }
+  assert (Tag : In 40 ib_tag_arms -> exists g, t = KTag g).
+  { intro Hk. apply (head_all_tag (nth 40 heads_in_body [])); [|exact Hm].
+    exact (forallb_nth_in (fun k => forallb atom_is_tag (nth k heads_in_body [])) ib_tag_arms 40 FT Hk). }
+  assert (Fmt : In 40 [24; 25; 26; 27] -> exists g, t = KTag g /\ is_formatting (tg_name g) = true).
+  { intro Hk. apply (head_named_prop is_formatting (nth 40 heads_in_body [])); [|exact Hm].
+    exact (forallb_nth_in (fun k => forallb (atom_names is_formatting false) (nth k heads_in_body [])) [24; 25; 26; 27] 40 FF Hk). }
+  assert (NotC : In 40 [0; 2; 7] -> is_chars t = false).
+  { intro Hk. apply (head_not_chars (nth 40 heads_in_body [])); [|exact Hm].
+    exact (forallb_nth_in (fun k => forallb atom_not_chars (nth k heads_in_body [])) [0; 2; 7] 40 FN Hk). }
+  safe_arm Safe. eapply wp_mono; [apply ib_40_ok; try assumption; apply NSof; reflexivity | apply TagFin; reflexivity].
+Qed.
+
+Lemma ib_spec_41 ih it self : ib_cb ih it self -> ib_arm_spec 41 (ib_arm_41 ih it self).
+Proof.
+  ib_setup.
+  assert (Safe : In 41 ib_safe_arms -> exists g, t = KTag g /\ tg_name g <> nm "html" /\
+            (ns_html, tg_name g) <> (ns_html, nm "head") /\ (ns_html, tg_name g) <> (ns_html, nm "template")).
+  { intro Hk. apply (head_safe (nth 41 heads_in_body [])); [|exact Hm].
+    exact (forallb_nth_in (fun k => forallb (atom_names safe_name false) (nth k heads_in_body [])) ib_safe_arms 41 FS Hk). }
+  assert (Tag : In 41 ib_tag_arms -> exists g, t = KTag g).
+  { intro Hk. apply (head_all_tag (nth 41 heads_in_body [])); [|exact Hm].
+    exact (forallb_nth_in (fun k => forallb atom_is_tag (nth k heads_in_body [])) ib_tag_arms 41 FT Hk). }
+  assert (Fmt : In 41 [24; 25; 26; 27] -> exists g, t = KTag g /\ is_formatting (tg_name g) = true).
+  { intro Hk. apply (head_named_prop is_formatting (nth 41 heads_in_body [])); [|exact Hm].
+    exact (forallb_nth_in (fun k => forallb (atom_names is_formatting false) (nth k heads_in_body [])) [24; 25; 26; 27] 41 FF Hk). }
+  assert (NotC : In 41 [0; 2; 7] -> is_chars t = false).
+  { intro Hk. apply (head_not_chars (nth 41 heads_in_body [])); [|exact Hm].
+    exact (forallb_nth_in (fun k => forallb atom_not_chars (nth k heads_in_body [])) [0; 2; 7] 41 FN Hk). }
+  safe_arm Safe. eapply wp_mono; [apply ib_41_ok; assumption | exact DoneFin].
+Qed.
+
+Lemma ib_spec_42 ih it self : ib_cb ih it self -> ib_arm_spec 42 (ib_arm_42 ih it self).
+Proof.
+  ib_setup.
+  assert (Safe : In 42 ib_safe_arms -> exists g, t = KTag g /\ tg_name g <> nm "html" /\
+            (ns_html, tg_name g) <> (ns_html, nm "head") /\ (ns_html, tg_name g) <> (ns_html, nm "template")).
+  { intro Hk. apply (head_safe (nth 42 heads_in_body [])); [|exact Hm].
+    exact (forallb_nth_in (fun k => forallb (atom_names safe_name false) (nth k heads_in_body [])) ib_safe_arms 42 FS Hk). }
+  assert (Tag : In 42 ib_tag_arms -> exists g, t = KTag g).
+  { intro Hk. apply (head_all_tag (nth 42 heads_in_body [])); [|exact Hm].
+    exact (forallb_nth_in (fun k => forallb atom_is_tag (nth k heads_in_body [])) ib_tag_arms 42 FT Hk). }
+  assert (Fmt : In 42 [24; 25; 26; 27] -> exists g, t = KTag g /\ is_formatting (tg_name g) = true).
+  { intro Hk. apply (head_named_prop is_formatting (nth 42 heads_in_body [])); [|exact Hm].
+    exact (forallb_nth_in (fun k => forallb (atom_names is_formatting false) (nth k heads_in_body [])) [24; 25; 26; 27] 42 FF Hk). }
+  assert (NotC : In 42 [0; 2; 7] -> is_chars t = false).
+  { intro Hk. apply (head_not_chars (nth 42 heads_in_body [])); [|exact Hm].
+    exact (forallb_nth_in (fun k => forallb atom_not_chars (nth k heads_in_body [])) [0; 2; 7] 42 FN Hk). }
+  safe_arm Safe. eapply wp_mono; [apply ib_42_ok; assumption | exact DoneFin].
+Qed.
+
+Lemma ib_spec_43 ih it self : ib_cb ih it self -> ib_arm_spec 43 (ib_arm_43 ih it self).
+Proof.
+  ib_setup.
+  assert (Safe : In 43 ib_safe_arms -> exists g, t = KTag g /\ tg_name g <> nm "html" /\
+            (ns_html, tg_name g) <> (ns_html, nm "head") /\ (ns_html, tg_name g) <> (ns_html, nm "template")).
+  { intro Hk. apply (head_safe (nth 43 heads_in_body [])); [|exact Hm].
+    exact (forallb_nth_in (fun k => forallb (atom_names safe_name false) (nth k heads_in_body [])) ib_safe_arms 43 FS Hk). }
+  assert (Tag : In 43 ib_tag_arms -> exists g, t = KTag g).
+  { intro Hk. apply (head_all_tag (nth 43 heads_in_body [])); [|exact Hm].
+    exact (forallb_nth_in (fun k => forallb atom_is_tag (nth k heads_in_body [])) ib_tag_arms 43 FT Hk). }
+  assert (Fmt : In 43 [24; 25; 26; 27] -> exists g, t = KTag g /\ is_formatting (tg_name g) = true).
+  { intro Hk. apply (head_named_prop is_formatting (nth 43 heads_in_body [])); [|exact Hm].
+    exact (forallb_nth_in (fun k => forallb (atom_names is_formatting false) (nth k heads_in_body [])) [24; 25; 26; 27] 43 FF Hk). }
+  assert (NotC : In 43 [0; 2; 7] -> is_chars t = false).
+  { intro Hk. apply (head_not_chars (nth 43 heads_in_body [])); [|exact Hm].
+    exact (forallb_nth_in (fun k => forallb atom_not_chars (nth k heads_in_body [])) [0; 2; 7] 43 FN Hk). }
+  safe_arm Safe. eapply wp_mono; [apply ib_43_ok; assumption | exact DoneFin].
+Qed.
+
+Lemma ib_spec_44 ih it self : ib_cb ih it self -> ib_arm_spec 44 (ib_arm_44 ih it self).
+Proof.
+  ib_setup.
+  assert (Safe : In 44 ib_safe_arms -> exists g, t = KTag g /\ tg_name g <> nm "html" /\
+            (ns_html, tg_name g) <> (ns_html, nm "head") /\ (ns_html, tg_name g) <> (ns_html, nm "template")).
+  { intro Hk. apply (head_safe (nth 44 heads_in_body [])); [|exact Hm].
+    exact (forallb_nth_in (fun k => forallb (atom_names safe_name false) (nth k heads_in_body [])) ib_safe_arms 44 FS Hk). }
+  assert (Tag : In 44 ib_tag_arms -> exists g, t = KTag g).
+  { intro Hk. apply (head_all_tag (nth 44 heads_in_body [])); [|exact Hm].
+    exact (forallb_nth_in (fun k => forallb atom_is_tag (nth k heads_in_body [])) ib_tag_arms 44 FT Hk). }
+  assert (Fmt : In 44 [24; 25; 26; 27] -> exists g, t = KTag g /\ is_formatting (tg_name g) = true).
+  { intro Hk. apply (head_named_prop is_formatting (nth 44 heads_in_body [])); [|exact Hm].
+    exact (forallb_nth_in (fun k => forallb (atom_names is_formatting false) (nth k heads_in_body [])) [24; 25; 26; 27] 44 FF Hk). }
+  assert (NotC : In 44 [0; 2; 7] -> is_chars t = false).
+  { intro Hk. apply (head_not_chars (nth 44 heads_in_body [])); [|exact Hm].
+    exact (forallb_nth_in (fun k => forallb atom_not_chars (nth k heads_in_body [])) [0; 2; 7] 44 FN Hk). }
+  safe_arm Safe. eapply wp_mono; [apply ib_44_ok; assumption | exact DoneFin].
+Qed.
+
+Lemma ib_spec_45 ih it self : ib_cb ih it self -> ib_arm_spec 45 (ib_arm_45 ih it self).
+Proof.
+  ib_setup.
+  assert (Safe : In 45 ib_safe_arms -> exists g, t = KTag g /\ tg_name g <> nm "html" /\
+            (ns_html, tg_name g) <> (ns_html, nm "head") /\ (ns_html, tg_name g) <> (ns_html, nm "template")).
+  { intro Hk. apply (head_safe (nth 45 heads_in_body [])); [|exact Hm].
+    exact (forallb_nth_in (fun k => forallb (atom_names safe_name false) (nth k heads_in_body [])) ib_safe_arms 45 FS Hk). }
+  assert (Tag : In 45 ib_tag_arms -> exists g, t = KTag g).
+  { intro Hk. apply (head_all_tag (nth 45 heads_in_body [])); [|exact Hm].
+    exact (forallb_nth_in (fun k => forallb atom_is_tag (nth k heads_in_body [])) ib_tag_arms 45 FT Hk). }
+  assert (Fmt : In 45 [24; 25; 26; 27] -> exists g, t = KTag g /\ is_formatting (tg_name g) = true).
+  { intro Hk. apply (head_named_prop is_formatting (nth 45 heads_in_body [])); [|exact Hm].
+    exact (forallb_nth_in (fun k => forallb (atom_names is_formatting false) (nth k heads_in_body [])) [24; 25; 26; 27] 45 FF Hk). }
+  assert (NotC : In 45 [0; 2; 7] -> is_chars t = false).
+  { intro Hk. apply (head_not_chars (nth 45 heads_in_body [])); [|exact Hm].
+    exact (forallb_nth_in (fun k => forallb atom_not_chars (nth k heads_in_body [])) [0; 2; 7] 45 FN Hk). }
+  safe_arm Safe. eapply wp_mono; [apply ib_45_ok; assumption | exact DoneFin].
+Qed.
+
+Lemma ib_spec_46 ih it self : ib_cb ih it self -> ib_arm_spec 46 (ib_arm_46 ih it self).
+Proof.
+  ib_setup.
+  assert (Safe : In 46 ib_safe_arms -> exists g, t = KTag g /\ tg_name g <> nm "html" /\
+            (ns_html, tg_name g) <> (ns_html, nm "head") /\ (ns_html, tg_name g) <> (ns_html, nm "template")).
+  { intro Hk. apply (head_safe (nth 46 heads_in_body [])); [|exact Hm].
+    exact (forallb_nth_in (fun k => forallb (atom_names safe_name false) (nth k heads_in_body [])) ib_safe_arms 46 FS Hk). }
+  assert (Tag : In 46 ib_tag_arms -> exists g, t = KTag g).
+  { intro Hk. apply (head_all_tag (nth 46 heads_in_body [])); [|exact Hm].
+    exact (forallb_nth_in (fun k => forallb atom_is_tag (nth k heads_in_body [])) ib_tag_arms 46 FT Hk). }
+  assert (Fmt : In 46 [24; 25; 26; 27] -> exists g, t = KTag g /\ is_formatting (tg_name g) = true).
+  { intro Hk. apply (head_named_prop is_formatting (nth 46 heads_in_body [])); [|exact Hm].
+    exact (forallb_nth_in (fun k => forallb (atom_names is_formatting false) (nth k heads_in_body [])) [24; 25; 26; 27] 46 FF Hk). }
+  assert (NotC : In 46 [0; 2; 7] -> is_chars t = false).
+  { intro Hk. apply (head_not_chars (nth 46 heads_in_body [])); [|exact Hm].
+    exact (forallb_nth_in (fun k => forallb atom_not_chars (nth k heads_in_body [])) [0; 2; 7] 46 FN Hk). }
+  destruct Tag as [g ->]; [simpl; tauto|]. eapply wp_mono; [apply ib_46_ok; assumption | apply TagFin; reflexivity].
+Qed.
+
+Lemma ib_spec_47 ih it self : ib_cb ih it self -> ib_arm_spec 47 (ib_arm_47 ih it self).
+Proof.
+  ib_setup.
+  assert (Safe : In 47 ib_safe_arms -> exists g, t = KTag g /\ tg_name g <> nm "html" /\
+            (ns_html, tg_name g) <> (ns_html, nm "head") /\ (ns_html, tg_name g) <> (ns_html, nm "template")).
+  { intro Hk. apply (head_safe (nth 47 heads_in_body [])); [|exact Hm].
+    exact (forallb_nth_in (fun k => forallb (atom_names safe_name false) (nth k heads_in_body [])) ib_safe_arms 47 FS Hk). }
+  assert (Tag : In 47 ib_tag_arms -> exists g, t = KTag g).
+  { intro Hk. apply (head_all_tag (nth 47 heads_in_body [])); [|exact Hm].
+    exact (forallb_nth_in (fun k => forallb atom_is_tag (nth k heads_in_body [])) ib_tag_arms 47 FT Hk). }
+  assert (Fmt : In 47 [24; 25; 26; 27] -> exists g, t = KTag g /\ is_formatting (tg_name g) = true).
+  { intro Hk. apply (head_named_prop is_formatting (nth 47 heads_in_body [])); [|exact Hm].
+    exact (forallb_nth_in (fun k => forallb (atom_names is_formatting false) (nth k heads_in_body [])) [24; 25; 26; 27] 47 FF Hk). }
+  assert (NotC : In 47 [0; 2; 7] -> is_chars t = false).
+  { intro Hk. apply (head_not_chars (nth 47 heads_in_body [])); [|exact Hm].
+    exact (forallb_nth_in (fun k => forallb atom_not_chars (nth k heads_in_body [])) [0; 2; 7] 47 FN Hk). }
+  destruct Tag as [g ->]; [simpl; tauto|]. eapply wp_mono; [apply ib_47_ok; assumption | apply TagFin; reflexivity].
+Qed.
+
+Lemma ib_spec_48 ih it self : ib_cb ih it self -> ib_arm_spec 48 (ib_arm_48 ih it self).
+Proof.
+  ib_setup.
+  assert (Safe : In 48 ib_safe_arms -> exists g, t = KTag g /\ tg_name g <> nm "html" /\
+            (ns_html, tg_name g) <> (ns_html, nm "head") /\ (ns_html, tg_name g) <> (ns_html, nm "template")).
+  { intro Hk. apply (head_safe (nth 48 heads_in_body [])); [|exact Hm].
+    exact (forallb_nth_in (fun k => forallb (atom_names safe_name false) (nth k heads_in_body [])) ib_safe_arms 48 FS Hk). }
+  assert (Tag : In 48 ib_tag_arms -> exists g, t = KTag g).
+  { intro Hk. apply (head_all_tag (nth 48 heads_in_body [])); [|exact Hm].
+    exact (forallb_nth_in (fun k => forallb atom_is_tag (nth k heads_in_body [])) ib_tag_arms 48 FT Hk). }
+  assert (Fmt : In 48 [24; 25; 26; 27] -> exists g, t = KTag g /\ is_formatting (tg_name g) = true).
+  { intro Hk. apply (head_named_prop is_formatting (nth 48 heads_in_body [])); [|exact Hm].
+    exact (forallb_nth_in (fun k => forallb (atom_names is_formatting false) (nth k heads_in_body [])) [24; 25; 26; 27] 48 FF Hk). }
+  assert (NotC : In 48 [0; 2; 7] -> is_chars t = false).
+  { intro Hk. apply (head_not_chars (nth 48 heads_in_body [])); [|exact Hm].
+    exact (forallb_nth_in (fun k => forallb atom_not_chars (nth k heads_in_body [])) [0; 2; 7] 48 FN Hk). }
+  destruct Tag as [g ->]; [simpl; tauto|]. unfold ib_arm_48. eapply wp_mono; [apply armd_unexpected; exact I1 | exact DoneFin].
+Qed.
+
+Lemma ib_spec_49 ih it self : ib_cb ih it self -> ib_arm_spec 49 (ib_arm_49 ih it self).
+Proof.
+  ib_setup.
+  assert (Safe : In 49 ib_safe_arms -> exists g, t = KTag g /\ tg_name g <> nm "html" /\
+            (ns_html, tg_name g) <> (ns_html, nm "head") /\ (ns_html, tg_name g) <> (ns_html, nm "template")).
+  { intro Hk. apply (head_safe (nth 49 heads_in_body [])); [|exact Hm].
+    exact (forallb_nth_in (fun k => forallb (atom_names safe_name false) (nth k heads_in_body [])) ib_safe_arms 49 FS Hk). }
+  assert (Tag : In 49 ib_tag_arms -> exists g, t = KTag g).
+  { intro Hk. apply (head_all_tag (nth 49 heads_in_body [])); [|exact Hm].
+    exact (forallb_nth_in (fun k => forallb atom_is_tag (nth k heads_in_body [])) ib_tag_arms 49 FT Hk). }
+  assert (Fmt : In 49 [24; 25; 26; 27] -> exists g, t = KTag g /\ is_formatting (tg_name g) = true).
+  { intro Hk. apply (head_named_prop is_formatting (nth 49 heads_in_body [])); [|exact Hm].
+    exact (forallb_nth_in (fun k => forallb (atom_names is_formatting false) (nth k heads_in_body [])) [24; 25; 26; 27] 49 FF Hk). }
+  assert (NotC : In 49 [0; 2; 7] -> is_chars t = false).
+  { intro Hk. apply (head_not_chars (nth 49 heads_in_body [])); [|exact Hm].
+    exact (forallb_nth_in (fun k => forallb atom_not_chars (nth k heads_in_body [])) [0; 2; 7] 49 FN Hk). }
+  destruct Tag as [g ->]; [simpl; tauto|]. pose proof (head_all_start _ _ F49 Hm) as St.
     assert (N0 : tname (KTag g) <> nm "html") by (apply (unmatched_start _ _ _ (Hn 3 ltac:(lia)) A3 St)).
     assert (N1 : tname (KTag g) <> nm "head") by (apply (unmatched_start _ _ _ (Hn 48 ltac:(lia)) A48 St)).
     assert (N2 : tname (KTag g) <> nm "template") by (apply (unmatched_start _ _ _ (Hn 4 ltac:(lia)) A4 St)).
     eapply wp_mono; [apply ib_49_ok; try assumption; [apply NSof; reflexivity | intro E; injection E; exact N1 | intro E; injection E; exact N2] | apply TagFin; reflexivity].
-  - (* 50 *) destruct Tag as [g ->]; [simpl; tauto|]. pose proof (head_all_end _ _ F50 Hm) as En.
+Qed.
+
+Lemma ib_spec_50 ih it self : ib_cb ih it self -> ib_arm_spec 50 (ib_arm_50 ih it self).
+Proof.
+  ib_setup.
+  assert (Safe : In 50 ib_safe_arms -> exists g, t = KTag g /\ tg_name g <> nm "html" /\
+            (ns_html, tg_name g) <> (ns_html, nm "head") /\ (ns_html, tg_name g) <> (ns_html, nm "template")).
+  { intro Hk. apply (head_safe (nth 50 heads_in_body [])); [|exact Hm].
+    exact (forallb_nth_in (fun k => forallb (atom_names safe_name false) (nth k heads_in_body [])) ib_safe_arms 50 FS Hk). }
+  assert (Tag : In 50 ib_tag_arms -> exists g, t = KTag g).
+  { intro Hk. apply (head_all_tag (nth 50 heads_in_body [])); [|exact Hm].
+    exact (forallb_nth_in (fun k => forallb atom_is_tag (nth k heads_in_body [])) ib_tag_arms 50 FT Hk). }
+  assert (Fmt : In 50 [24; 25; 26; 27] -> exists g, t = KTag g /\ is_formatting (tg_name g) = true).
+  { intro Hk. apply (head_named_prop is_formatting (nth 50 heads_in_body [])); [|exact Hm].
+    exact (forallb_nth_in (fun k => forallb (atom_names is_formatting false) (nth k heads_in_body [])) [24; 25; 26; 27] 50 FF Hk). }
+  assert (NotC : In 50 [0; 2; 7] -> is_chars t = false).
+  { intro Hk. apply (head_not_chars (nth 50 heads_in_body [])); [|exact Hm].
+    exact (forallb_nth_in (fun k => forallb atom_not_chars (nth k heads_in_body [])) [0; 2; 7] 50 FN Hk). }
+  destruct Tag as [g ->]; [simpl; tauto|]. pose proof (head_all_end _ _ F50 Hm) as En.
     assert (N0 : tname (KTag g) <> nm "html") by (apply (unmatched_end _ _ _ (Hn 9 ltac:(lia)) A9 En)).
     unfold ib_arm_50. eapply wp_mono; [apply ib_any_end_ok; assumption | exact DoneFin].
+Qed.
+
+Lemma in_body_specs ih it self : ib_cb ih it self ->
+  Forall (fun kb => ib_arm_spec (fst kb) (snd kb))
+         (combine (seq 0 (length (bodies_in_body_gen ih it self))) (bodies_in_body_gen ih it self)).
+Proof.
+  intro CB. unfold bodies_in_body_gen. cbn [length seq combine].
+  repeat apply Forall_cons; try apply Forall_nil; cbn [fst snd].
+  - apply ib_spec_0; exact CB.
+  - apply ib_spec_1; exact CB.
+  - apply ib_spec_2; exact CB.
+  - apply ib_spec_3; exact CB.
+  - apply ib_spec_4; exact CB.
+  - apply ib_spec_5; exact CB.
+  - apply ib_spec_6; exact CB.
+  - apply ib_spec_7; exact CB.
+  - apply ib_spec_8; exact CB.
+  - apply ib_spec_9; exact CB.
+  - apply ib_spec_10; exact CB.
+  - apply ib_spec_11; exact CB.
+  - apply ib_spec_12; exact CB.
+  - apply ib_spec_13; exact CB.
+  - apply ib_spec_14; exact CB.
+  - apply ib_spec_15; exact CB.
+  - apply ib_spec_16; exact CB.
+  - apply ib_spec_17; exact CB.
+  - apply ib_spec_18; exact CB.
+  - apply ib_spec_19; exact CB.
+  - apply ib_spec_20; exact CB.
+  - apply ib_spec_21; exact CB.
+  - apply ib_spec_22; exact CB.
+  - apply ib_spec_23; exact CB.
+  - apply ib_spec_24; exact CB.
+  - apply ib_spec_25; exact CB.
+  - apply ib_spec_26; exact CB.
+  - apply ib_spec_27; exact CB.
+  - apply ib_spec_28; exact CB.
+  - apply ib_spec_29; exact CB.
+  - apply ib_spec_30; exact CB.
+  - apply ib_spec_31; exact CB.
+  - apply ib_spec_32; exact CB.
+  - apply ib_spec_33; exact CB.
+  - apply ib_spec_34; exact CB.
+  - apply ib_spec_35; exact CB.
+  - apply ib_spec_36; exact CB.
+  - apply ib_spec_37; exact CB.
+  - apply ib_spec_38; exact CB.
+  - apply ib_spec_39; exact CB.
+  - apply ib_spec_40; exact CB.
+  - apply ib_spec_41; exact CB.
+  - apply ib_spec_42; exact CB.
+  - apply ib_spec_43; exact CB.
+  - apply ib_spec_44; exact CB.
+  - apply ib_spec_45; exact CB.
+  - apply ib_spec_46; exact CB.
+  - apply ib_spec_47; exact CB.
+  - apply ib_spec_48; exact CB.
+  - apply ib_spec_49; exact CB.
+  - apply ib_spec_50; exact CB.
 Qed.
